@@ -113,16 +113,16 @@ Proof.
 Qed.
 
 (** register: one more waiter at the BACK of the queue of every named key *)
-Definition mkw (c : Z) (dl : option Z) (left : bool) : waiter := {| w_conn := c; w_dl := dl; w_left := left |}.
-Lemma reg_get_register db c left dl : forall keys r0 rk,
-  exists n, reg_get (register r0 db c keys left dl) rk = reg_get r0 rk ++ repeat (mkw c dl left) n
+Definition mkw (c : Z) (dl : option Z) (left : bool) (at_ : Z) : waiter := {| w_conn := c; w_dl := dl; w_left := left; w_at := at_ |}.
+Lemma reg_get_register db c left dl at_ : forall keys r0 rk,
+  exists n, reg_get (register r0 db c keys left dl at_) rk = reg_get r0 rk ++ repeat (mkw c dl left at_) n
             /\ (n <> O <-> (fst rk = db /\ bmem (snd rk) keys = true)).
 Proof.
   intros keys. induction keys as [|k keys IH]; intros r0 rk.
   - exists O. cbn. rewrite app_nil_r. split; [reflexivity|]. split; [congruence|intros [_ H]; discriminate].
-  - unfold register. cbn [fold_left]. fold (mkw c dl left).
-    set (r1 := reg_put r0 (db, k) (reg_get r0 (db, k) ++ [mkw c dl left])).
-    destruct (IH r1 rk) as [n [Hn Hiff]]. unfold register in Hn. fold (mkw c dl left) in Hn.
+  - unfold register. cbn [fold_left]. fold (mkw c dl left at_).
+    set (r1 := reg_put r0 (db, k) (reg_get r0 (db, k) ++ [mkw c dl left at_])).
+    destruct (IH r1 rk) as [n [Hn Hiff]]. unfold register in Hn. fold (mkw c dl left at_) in Hn.
     destruct (rk_eqb rk (db, k)) eqn:E.
     + apply rk_eqb_eq in E. subst rk. exists (S n). split.
       * rewrite Hn. unfold r1. rewrite reg_get_put_same. rewrite <- app_assoc. reflexivity.
@@ -135,15 +135,15 @@ Proof.
         -- apply orb_true_iff in H2. destruct H2 as [H2|H2]; [|exact H2].
            rewrite H1, Z.eqb_refl, H2 in E. discriminate.
 Qed.
-Lemma in_register db c left dl : forall keys r0 rk q,
-  In (rk, q) (register r0 db c keys left dl) ->
+Lemma in_register db c left dl at_ : forall keys r0 rk q,
+  In (rk, q) (register r0 db c keys left dl at_) ->
   forall w, In w q ->
-  (w = mkw c dl left /\ fst rk = db /\ bmem (snd rk) keys = true) \/ exists q0, In (rk, q0) r0 /\ In w q0.
+  (w = mkw c dl left at_ /\ fst rk = db /\ bmem (snd rk) keys = true) \/ exists q0, In (rk, q0) r0 /\ In w q0.
 Proof.
   intros keys. induction keys as [|k keys IH]; intros r0 rk q Hin w Hw.
   - right. exists q. split; assumption.
-  - unfold register in Hin. cbn [fold_left] in Hin. fold (mkw c dl left) in Hin.
-    set (r1 := reg_put r0 (db, k) (reg_get r0 (db, k) ++ [mkw c dl left])) in Hin.
+  - unfold register in Hin. cbn [fold_left] in Hin. fold (mkw c dl left at_) in Hin.
+    set (r1 := reg_put r0 (db, k) (reg_get r0 (db, k) ++ [mkw c dl left at_])) in Hin.
     destruct (IH r1 rk q Hin w Hw) as [(H & H' & H'')|[q0 [H1 H2]]].
     { left. split; [exact H|]. split; [exact H'|]. cbn [bmem]. rewrite H''. apply orb_true_r. }
     unfold r1 in H1. apply in_reg_put in H1. destruct H1 as [[H1 H3]|[H1 _]].
@@ -151,6 +151,56 @@ Proof.
       * apply reg_get_in in H2. destruct H2 as [q1 [H4 H5]]. right. exists q1. subst rk. split; assumption.
       * left. subst rk. cbn [fst snd bmem]. rewrite beq_refl. repeat split. symmetry. exact H2.
     + right. exists q0. split; assumption.
+Qed.
+
+(** reregister: the same waiter once more per named key, at the place its stamp gives it *)
+Lemma in_ins_at w q x : In x (ins_at w q) <-> x = w \/ In x q.
+Proof.
+  induction q as [|y q IH]; cbn [ins_at].
+  - split; [intros [H|[]]; left; congruence|intros [H|[]]; left; congruence].
+  - destruct (w_at w <? w_at y).
+    + split; [intros [H|H]; [left; congruence|right; exact H]|intros [H|H]; [left; congruence|right; exact H]].
+    + cbn [In]. rewrite IH. tauto.
+Qed.
+Lemma in_reregister db c left dl at_ : forall keys r0 rk q,
+  In (rk, q) (reregister r0 db c keys left dl at_) ->
+  forall w, In w q ->
+  (w = mkw c dl left at_ /\ fst rk = db /\ bmem (snd rk) keys = true) \/ exists q0, In (rk, q0) r0 /\ In w q0.
+Proof.
+  intros keys. induction keys as [|k keys IH]; intros r0 rk q Hin w Hw.
+  - right. exists q. split; assumption.
+  - unfold reregister in Hin. cbn [fold_left] in Hin. fold (mkw c dl left at_) in Hin.
+    set (r1 := reg_put r0 (db, k) (ins_at (mkw c dl left at_) (reg_get r0 (db, k)))) in Hin.
+    destruct (IH r1 rk q Hin w Hw) as [(H & H' & H'')|[q0 [H1 H2]]].
+    { left. split; [exact H|]. split; [exact H'|]. cbn [bmem]. rewrite H''. apply orb_true_r. }
+    unfold r1 in H1. apply in_reg_put in H1. destruct H1 as [[H1 H3]|[H1 _]].
+    + subst q0. apply in_ins_at in H2. destruct H2 as [H2|H2].
+      * left. subst rk. cbn [fst snd bmem]. rewrite beq_refl. repeat split. exact H2.
+      * apply reg_get_in in H2. destruct H2 as [q1 [H4 H5]]. right. exists q1. subst rk. split; assumption.
+    + right. exists q0. split; assumption.
+Qed.
+Lemma reg_get_reregister db c left dl at_ : forall keys r0 rk,
+  (forall x, In x (reg_get r0 rk) -> In x (reg_get (reregister r0 db c keys left dl at_) rk)) /\
+  ((fst rk = db /\ bmem (snd rk) keys = true) -> In (mkw c dl left at_) (reg_get (reregister r0 db c keys left dl at_) rk)) /\
+  ((fst rk = db /\ bmem (snd rk) keys = true) \/ reg_get (reregister r0 db c keys left dl at_) rk = reg_get r0 rk).
+Proof.
+  intros keys. induction keys as [|k keys IH]; intros r0 rk.
+  - cbn. split; [auto|]. split; [intros [_ H]; discriminate|right; reflexivity].
+  - unfold reregister. cbn [fold_left]. fold (mkw c dl left at_).
+    set (r1 := reg_put r0 (db, k) (ins_at (mkw c dl left at_) (reg_get r0 (db, k)))).
+    destruct (IH r1 rk) as (I1 & I2 & I3). unfold reregister in I1, I2, I3. fold (mkw c dl left at_) in I1, I2, I3.
+    destruct (rk_eqb rk (db, k)) eqn:E.
+    + apply rk_eqb_eq in E. subst rk.
+      assert (Hg : reg_get r1 (db, k) = ins_at (mkw c dl left at_) (reg_get r0 (db, k))) by (unfold r1; apply reg_get_put_same).
+      split; [intros x Hx; apply I1; rewrite Hg; apply in_ins_at; right; exact Hx|].
+      split; [intros _; apply I1; rewrite Hg; apply in_ins_at; left; reflexivity|].
+      left. cbn [fst snd bmem]. rewrite beq_refl. split; reflexivity.
+    + assert (Hg : reg_get r1 rk = reg_get r0 rk) by (unfold r1; apply reg_get_put_other; exact E).
+      split; [intros x Hx; apply I1; rewrite Hg; exact Hx|].
+      split.
+      * intros [H1 H2]. apply I2. split; [exact H1|]. cbn [bmem] in H2. apply orb_true_iff in H2. destruct H2 as [H2|H2]; [|exact H2].
+        unfold rk_eqb in E. cbn [fst snd] in E. rewrite H1, Z.eqb_refl, H2 in E. discriminate.
+      * destruct I3 as [[H1 H2]|H3]; [left; split; [exact H1|]; cbn [bmem]; rewrite H2; apply orb_true_r|right; rewrite H3; exact Hg].
 Qed.
 
 (** ================= small facts ================= *)
@@ -194,50 +244,78 @@ Definition agreeW (b : blocking) (W : list wakeup) : Prop := agree (with_wake b 
 Lemma agreeW_self b : agreeW b (b_wake b) <-> agree b.
 Proof. unfold agreeW. destruct b; reflexivity. Qed.
 
-(** a connection that is not Blocked has no registration and no wake-up *)
+(** a connection that is not Blocked has no registration *)
 Lemma not_blocked_clean b c : agree b -> zlookup c (b_blk b) = None ->
-  (forall rk q, In (rk, q) (b_reg b) -> cnt c q = O) /\ wakes_for c (b_wake b) = [].
+  forall rk q, In (rk, q) (b_reg b) -> cnt c q = O.
 Proof.
-  intros (A1 & A2 & _ & _) Hc. split.
-  - intros rk q Hin. apply cnt_zero. intros w Hw Hcw. destruct (A1 rk q w Hin Hw) as (st & H & _). congruence.
-  - apply wakes_for_nil. intros u Hu Hcu. destruct (A2 u Hu) as (st & H & _). congruence.
+  intros (A1 & _) Hc rk q Hin. apply cnt_zero. intros w Hw Hcw. destruct (A1 rk q w Hin Hw) as (st & H & _). congruence.
 Qed.
 
-(** ---- a connection blocks (handle_blpop/handle_brpop) or is registered again (wake_client) ---- *)
-Lemma agree_register_gen b W c st blk' :
-  agreeW b W -> zlookup c (b_blk b) = None -> zlookup c blk' = Some st ->
+(** ---- a connection blocks (handle_blpop/handle_brpop) or is registered again (wake_client):
+    [reg'] adds waiters for [c] alone, all with the data of its Blocked state, at least one on
+    each of its keys, and keeps the others ---- *)
+Lemma agree_register_gen b W c st blk' reg' :
+  agreeW b W -> zlookup c (b_blk b) = None -> wakes_for c W = [] -> zlookup c blk' = Some st ->
   (forall c2, c2 <> c -> zlookup c2 blk' = zlookup c2 (b_blk b)) ->
-  agreeW (with_blk (with_reg b (register (b_reg b) (bl_db st) c (bl_keys st) (bl_left st) (bl_dl st))) blk') W.
+  (forall rk q w, In (rk, q) reg' -> In w q ->
+     (w_conn w = c /\ w_dl w = bl_dl st /\ w_left w = bl_left st /\ fst rk = bl_db st /\ bmem (snd rk) (bl_keys st) = true)
+     \/ exists q0, In (rk, q0) (b_reg b) /\ In w q0) ->
+  (forall rk x, In x (reg_get (b_reg b) rk) -> In x (reg_get reg' rk)) ->
+  (forall k, bmem k (bl_keys st) = true -> cnt c (reg_get reg' (bl_db st, k)) <> O) ->
+  agreeW (with_blk (with_reg b reg') blk') W.
 Proof.
-  intros HA Hnb Hst Hoth.
-  destruct (not_blocked_clean (with_wake b W) c HA Hnb) as [Hclean Hnw].
+  intros HA Hnb Hnw Hst Hoth I1 I2 I3.
   destruct HA as (A1 & A2 & A3 & A4).
   unfold agreeW, agree, waiters_agree, wakes_agree, wakes_unique, blocked_registered in *.
   cbn [with_wake with_reg with_blk b_reg b_wake b_blk] in *.
-  repeat split.
+  split; [|split; [|split]].
   - intros rk q w Hin Hw.
-    destruct (in_register _ _ _ _ _ _ _ _ Hin w Hw) as [(Hw1 & Hrk & Hk)|[q0 [H1 H2]]].
-    + subst w. cbn [mkw w_conn w_dl w_left]. exists st. repeat split; try assumption; reflexivity.
+    destruct (I1 _ _ _ Hin Hw) as [(Hc & Hd & Hl & Hrk & Hk)|[q0 [H1 H2]]].
+    + exists st. rewrite Hc. repeat split; try assumption; congruence.
     + destruct (A1 rk q0 w H1 H2) as (st2 & B1 & B2 & B3 & B4 & B5 & B6).
       assert (Hne : w_conn w <> c) by (intros E; rewrite E in B1; congruence).
       exists st2. rewrite (Hoth _ Hne). repeat split; assumption.
-  - intros u Hu. destruct (A2 u Hu) as (st2 & B1 & B2 & B3 & B4 & B5).
-    assert (Hne : u_conn u <> c) by (intros E; rewrite E in B1; congruence).
-    exists st2. rewrite (Hoth _ Hne). repeat split; try assumption.
-    intros rk q Hin. apply cnt_zero. intros w Hw.
-    destruct (in_register _ _ _ _ _ _ _ _ Hin w Hw) as [(Hw1 & _)|[q0 [H1 H2]]].
-    + subst w. cbn [mkw w_conn]. congruence.
-    + pose proof (B5 rk q0 H1) as Hz. rewrite cnt_zero in Hz. apply Hz. exact H2.
+  - intros u Hu. destruct (A2 u Hu) as (B1 & B2).
+    assert (Hne : u_conn u <> c) by (rewrite wakes_for_nil in Hnw; apply Hnw; exact Hu).
+    split.
+    + intros rk q Hin. apply cnt_zero. intros w Hw.
+      destruct (I1 _ _ _ Hin Hw) as [(Hc & _)|[q0 [H1 H2]]]; [congruence|].
+      pose proof (B1 rk q0 H1) as Hz. rewrite cnt_zero in Hz. apply Hz. exact H2.
+    + intros st2. rewrite (Hoth _ Hne). apply B2.
   - exact A3.
   - intros c2 st2 Hc2 Hw2 k Hk.
-    destruct (reg_get_register (bl_db st) c (bl_left st) (bl_dl st) (bl_keys st) (b_reg b) (bl_db st2, k)) as [n [Hn Hiff]].
-    rewrite Hn, cnt_app.
     destruct (Z.eq_dec c2 c) as [E|E].
-    + subst c2. rewrite Hst in Hc2. injection Hc2 as <-.
-      assert (n <> O) by (apply Hiff; cbn [fst snd]; split; [reflexivity|exact Hk]).
-      destruct n as [|n]; [congruence|]. cbn [repeat]. unfold cnt at 2. cbn [filter mkw w_conn].
-      rewrite Z.eqb_refl. cbn [length]. lia.
-    + rewrite (Hoth _ E) in Hc2. pose proof (A4 c2 st2 Hc2 Hw2 k Hk). lia.
+    + subst c2. rewrite Hst in Hc2. injection Hc2 as <-. apply I3. exact Hk.
+    + rewrite (Hoth _ E) in Hc2. pose proof (A4 c2 st2 Hc2 Hw2 k Hk) as Hold.
+      apply cnt_nonzero in Hold. destruct Hold as [w [G1 G2]]. apply cnt_nonzero. exists w. split; [apply I2; exact G1|exact G2].
+Qed.
+Lemma repeat_in {A} (x y : A) n : In y (repeat x n) -> y = x.
+Proof. induction n; cbn; [intros []|intros [H|H]; [congruence|auto]]. Qed.
+Lemma agree_register b W c st blk' at_ :
+  agreeW b W -> zlookup c (b_blk b) = None -> wakes_for c W = [] -> zlookup c blk' = Some st ->
+  (forall c2, c2 <> c -> zlookup c2 blk' = zlookup c2 (b_blk b)) ->
+  agreeW (with_blk (with_reg b (register (b_reg b) (bl_db st) c (bl_keys st) (bl_left st) (bl_dl st) at_)) blk') W.
+Proof.
+  intros HA Hnb Hnw Hst Hoth. apply (agree_register_gen b W c st blk' _ HA Hnb Hnw Hst Hoth).
+  - intros rk q w Hin Hw. destruct (in_register _ _ _ _ _ _ _ _ _ Hin w Hw) as [(-> & H1 & H2)|H]; [left|right; exact H].
+    cbn [mkw w_conn w_dl w_left]. repeat split; assumption.
+  - intros rk x Hx. destruct (reg_get_register (bl_db st) c (bl_left st) (bl_dl st) at_ (bl_keys st) (b_reg b) rk) as [n [Hn _]].
+    rewrite Hn. apply in_or_app. left. exact Hx.
+  - intros k Hk. destruct (reg_get_register (bl_db st) c (bl_left st) (bl_dl st) at_ (bl_keys st) (b_reg b) (bl_db st, k)) as [n [Hn Hiff]].
+    rewrite Hn, cnt_app. assert (n <> O) by (apply Hiff; cbn [fst snd]; split; [reflexivity|exact Hk]).
+    destruct n as [|n]; [congruence|]. cbn [repeat]. unfold cnt at 2. cbn [filter mkw w_conn]. rewrite Z.eqb_refl. cbn [length]. lia.
+Qed.
+Lemma agree_reregister_gen b W c st blk' at_ :
+  agreeW b W -> zlookup c (b_blk b) = None -> wakes_for c W = [] -> zlookup c blk' = Some st ->
+  (forall c2, c2 <> c -> zlookup c2 blk' = zlookup c2 (b_blk b)) ->
+  agreeW (with_blk (with_reg b (reregister (b_reg b) (bl_db st) c (bl_keys st) (bl_left st) (bl_dl st) at_)) blk') W.
+Proof.
+  intros HA Hnb Hnw Hst Hoth. apply (agree_register_gen b W c st blk' _ HA Hnb Hnw Hst Hoth).
+  - intros rk q w Hin Hw. destruct (in_reregister _ _ _ _ _ _ _ _ _ Hin w Hw) as [(-> & H1 & H2)|H]; [left|right; exact H].
+    cbn [mkw w_conn w_dl w_left]. repeat split; assumption.
+  - intros rk x Hx. apply (reg_get_reregister (bl_db st) c (bl_left st) (bl_dl st) at_ (bl_keys st) (b_reg b) rk). exact Hx.
+  - intros k Hk. apply cnt_nonzero. exists (mkw c (bl_dl st) (bl_left st) at_). split; [|reflexivity].
+    apply (reg_get_reregister (bl_db st) c (bl_left st) (bl_dl st) at_ (bl_keys st) (b_reg b) (bl_db st, k)). split; [reflexivity|exact Hk].
 Qed.
 
 (** ---- a push notifies the first waiter of the key ---- *)
@@ -250,6 +328,12 @@ Qed.
 Lemma in_filter_sub {A} (f : A -> bool) l x : In x (filter f l) -> In x l.
 Proof. intros H. apply filter_In in H. tauto. Qed.
 
+Lemma NoDup_app_disjoint {A} (l1 l2 : list A) : NoDup (l1 ++ l2) -> forall x, In x l1 -> In x l2 -> False.
+Proof.
+  induction l1 as [|a l1 IH]; cbn [app]; intros H x H1 H2; [destruct H1|].
+  apply NoDup_cons_iff in H. destruct H as [Hn Hd].
+  destruct H1 as [->|H1]; [apply Hn; apply in_or_app; right; exact H2|eapply IH; eauto].
+Qed.
 Lemma NoDup_app_single {A} (l : list A) x : NoDup l -> ~ In x l -> NoDup (l ++ [x]).
 Proof.
   induction l as [|y l IH]; intros Hn Hx; cbn [app]; [constructor; [intros []|constructor]|].
@@ -284,7 +368,7 @@ Proof.
     injection T1 as <-. congruence. }
   unfold agree, waiters_agree, wakes_agree, wakes_unique, blocked_registered.
   cbn [with_wake with_reg b_reg b_wake b_blk].
-  repeat split.
+  split; [|split; [|split]].
   - intros rk2 q2 w2 Hin Hw2. destruct (Hsub _ _ Hin _ Hw2) as [[q3 [H1 H2]] Hne].
     destruct (A1 _ _ _ H1 H2) as (st2 & T1 & T2 & T3 & T4 & T5 & T6).
     exists st2. repeat split; try assumption.
@@ -292,19 +376,20 @@ Proof.
     + rewrite wakes_for_nil in T6. apply T6. exact Hu.
     + subst u. cbn [u_conn]. intros E. destruct (Z.eq_dec (fst rk2) db) as [Ed|Ed]; [apply (Hne Ed); symmetry; exact E|].
       apply Ed. eapply Hc'db; eauto.
-  - intros u Hu. apply in_app_or in Hu. destruct Hu as [Hu|[Hu|[]]].
-    + destruct (A2 u Hu) as (st2 & T1 & T2 & T3 & T4 & T5). exists st2. repeat split; try assumption.
+  - intros u0 Hu. apply in_app_or in Hu. destruct Hu as [Hu|[Hu|[]]].
+    + destruct (A2 u0 Hu) as (T5 & T6). split; [|exact T6].
       intros rk2 q2 Hin. apply cnt_zero. intros w2 Hw2. destruct (Hsub _ _ Hin _ Hw2) as [[q3 [H1 H2]] _].
       pose proof (T5 _ _ H1) as Hz. rewrite cnt_zero in Hz. apply Hz. exact H2.
-    + subst u. cbn [u_conn u_db u_key u_left]. exists st'. repeat split; try assumption; try congruence.
-      intros rk2 q2 Hin. apply cnt_zero. intros w2 Hw2 E. destruct (Hsub _ _ Hin _ Hw2) as [[q3 [H1 H2]] Hne].
-      apply Hne; [|exact E]. eapply Hc'db; eauto.
+    + subst u0. cbn [u_conn u_db u_key u_left]. split.
+      * intros rk2 q2 Hin. apply cnt_zero. intros w2 Hw2 E. destruct (Hsub _ _ Hin _ Hw2) as [[q3 [H1 H2]] Hne].
+        apply Hne; [|exact E]. eapply Hc'db; eauto.
+      * intros st0 Hst0. fold c' in Hst0. rewrite S1 in Hst0. injection Hst0 as <-. repeat split; try assumption; congruence.
   - rewrite map_app. cbn [map u_conn]. apply NoDup_app_single; [exact A3|].
     intros Hin. apply in_map_iff in Hin. destruct Hin as [u [H1 H2]].
     rewrite wakes_for_nil in S6. apply (S6 u H2). exact H1.
   - intros c2 st2 Hc2 Hw2 k2 Hk2.
     assert (Hne : c2 <> c').
-    { intros E. rewrite wakes_for_nil in Hw2. apply (Hw2 {| u_conn := c'; u_db := db; u_key := k; u_left := w_left w |}).
+    { intros E. rewrite wakes_for_nil in Hw2. apply (Hw2 {| u_conn := c'; u_db := db; u_key := k; u_left := w_left w; u_at := w_at w |}).
       - apply in_or_app. right. left. reflexivity.
       - cbn [u_conn]. congruence. }
     assert (Hw2' : wakes_for c2 (b_wake b) = []).
@@ -356,33 +441,75 @@ Proof.
   destruct (0 <? z); [|repeat split; reflexivity]. apply notify_n_fields.
 Qed.
 
+(** the notification after a script: a series of notify_n *)
+Lemma agree_notify_after_script s b dbi parts : agree b -> agree (notify_after_script s b dbi parts).
+Proof.
+  unfold notify_after_script. generalize (firstn (match nth_error parts 2 with
+    | Some (FBulk t) => match parse_usize t with Some n => Z.to_nat n | None => O end | _ => O end) (skipn 3 parts)).
+  intros l. revert b. induction l as [|f l IH]; intros b HA; cbn [fold_left]; [exact HA|].
+  apply IH. destruct f; try exact HA. apply agree_notify_n. exact HA.
+Qed.
+Lemma notify_after_script_fields s b dbi parts :
+  let b' := notify_after_script s b dbi parts in
+  b_blk b' = b_blk b /\ b_out b' = b_out b /\ b_crashed b' = b_crashed b /\ b_dead b' = b_dead b /\ b_in b' = b_in b.
+Proof.
+  cbv zeta. unfold notify_after_script. generalize (firstn (match nth_error parts 2 with
+    | Some (FBulk t) => match parse_usize t with Some n => Z.to_nat n | None => O end | _ => O end) (skipn 3 parts)).
+  intros l. revert b. induction l as [|f l IH]; intros b; cbn [fold_left]; [repeat split; reflexivity|].
+  destruct (IH (match f with FBulk key => notify_n (llen_of (get_db s dbi) key) b dbi key | _ => b end)) as (H1 & H2 & H3 & H4 & H5).
+  assert (G : let b1 := match f with FBulk key => notify_n (llen_of (get_db s dbi) key) b dbi key | _ => b end in
+              b_blk b1 = b_blk b /\ b_out b1 = b_out b /\ b_crashed b1 = b_crashed b /\ b_dead b1 = b_dead b /\ b_in b1 = b_in b).
+  { destruct f; try (repeat split; reflexivity). apply notify_n_fields. }
+  cbv zeta in G. destruct G as (G1 & G2 & G3 & G4 & G5). repeat split; congruence.
+Qed.
+
 (** ---- wake_client ---- *)
 Lemma agree_emit b c f W : agreeW b W -> agreeW (emit b c f) W.
 Proof. intros H. exact H. Qed.
+(** taking a wake-up off the queue *)
+Lemma wake_unique_head b u W : agreeW b (u :: W) -> forall u2, In u2 W -> u_conn u2 <> u_conn u.
+Proof.
+  intros (_ & _ & A3 & _). unfold wakes_unique in A3. cbn [with_wake b_wake map] in A3.
+  inversion A3 as [|x l Hnotin Hnd]; subst. intros u2 Hu2 E. apply Hnotin. rewrite <- E. apply in_map. exact Hu2.
+Qed.
+(** ... of a connection that is Blocked no more (or never again): the others are untouched *)
 Lemma agree_unblock b W u :
   agreeW b (u :: W) -> agreeW (unblock b (u_conn u)) W /\ zlookup (u_conn u) (b_blk (unblock b (u_conn u))) = None.
 Proof.
-  intros (A1 & A2 & A3 & A4). unfold agreeW, agree, waiters_agree, wakes_agree, wakes_unique, blocked_registered in *.
+  intros HA. pose proof (wake_unique_head b u W HA) as HW. destruct HA as (A1 & A2 & A3 & A4).
+  unfold agreeW, agree, waiters_agree, wakes_agree, wakes_unique, blocked_registered in *.
   cbn [with_wake unblock with_blk b_reg b_wake b_blk] in *.
-  destruct (A2 u (or_introl eq_refl)) as (st & U1 & U2 & U3 & U4 & U5).
+  destruct (A2 u (or_introl eq_refl)) as (U5 & _).
   inversion A3 as [|x l Hnotin Hnd]; subst.
-  assert (HW : forall u2, In u2 W -> u_conn u2 <> u_conn u).
-  { intros u2 Hu2 E. apply Hnotin. rewrite <- E. apply in_map. exact Hu2. }
   split; [|apply zlookup_zremove_same].
-  repeat split.
+  split; [|split; [|split]].
   - intros rk q w Hin Hw. destruct (A1 _ _ _ Hin Hw) as (st2 & T1 & T2 & T3 & T4 & T5 & T6).
     assert (Hne : w_conn w <> u_conn u).
     { intros E. pose proof (U5 _ _ Hin) as Hz. rewrite cnt_zero in Hz. exact (Hz w Hw E). }
     exists st2. rewrite zlookup_zremove_other by exact Hne. repeat split; try assumption.
     apply wakes_for_nil. intros u2 Hu2. rewrite wakes_for_nil in T6. apply T6. right. exact Hu2.
-  - intros u2 Hu2. destruct (A2 u2 (or_intror Hu2)) as (st2 & T1 & T2 & T3 & T4 & T5).
-    exists st2. rewrite zlookup_zremove_other by (apply HW; exact Hu2). repeat split; assumption.
+  - intros u2 Hu2. destruct (A2 u2 (or_intror Hu2)) as (T5 & T6). split; [exact T5|].
+    intros st2. rewrite zlookup_zremove_other by (apply HW; exact Hu2). apply T6.
   - exact Hnd.
   - intros c2 st2 Hc2 Hw2 k Hk.
     assert (Hne : c2 <> u_conn u) by (intros E; subst c2; rewrite zlookup_zremove_same in Hc2; discriminate).
     rewrite zlookup_zremove_other in Hc2 by exact Hne.
     apply (A4 c2 st2 Hc2); [|exact Hk].
     apply wakes_for_nil. intros u2 [Hu2|Hu2]; [subst; congruence|]. rewrite wakes_for_nil in Hw2. apply Hw2. exact Hu2.
+Qed.
+(** ... of a connection that is not Blocked: nothing else changes *)
+Lemma agree_drop_wake b W u : agreeW b (u :: W) -> zlookup (u_conn u) (b_blk b) = None -> agreeW b W.
+Proof.
+  intros HA Hn. destruct (agree_unblock b W u HA) as [H _].
+  unfold agreeW, agree, waiters_agree, wakes_agree, wakes_unique, blocked_registered in *.
+  cbn [with_wake unblock with_blk b_reg b_wake b_blk] in *.
+  assert (E : forall c2, zlookup c2 (zremove (u_conn u) (b_blk b)) = zlookup c2 (b_blk b)).
+  { intros c2. destruct (Z.eq_dec c2 (u_conn u)) as [->|Hne]; [rewrite zlookup_zremove_same; congruence|apply zlookup_zremove_other; exact Hne]. }
+  destruct H as (B1 & B2 & B3 & B4). split; [|split; [|split]].
+  - intros rk q w Hin Hw. destruct (B1 rk q w Hin Hw) as (st2 & T). rewrite E in T. exists st2. exact T.
+  - intros u2 Hu2. destruct (B2 u2 Hu2) as (T5 & T6). split; [exact T5|]. intros st2 Hs. apply T6. rewrite E. exact Hs.
+  - exact B3.
+  - intros c2 st2 Hc2. apply B4. rewrite E. exact Hc2.
 Qed.
 
 Lemma with_reg_unblock_restore b c r :
@@ -391,52 +518,100 @@ Proof. destruct b; reflexivity. Qed.
 
 Lemma agree_reregister b W u st :
   agreeW b (u :: W) -> zlookup (u_conn u) (b_blk b) = Some st ->
-  agreeW (with_reg b (register (b_reg b) (u_db u) (u_conn u) (bl_keys st) (bl_left st) (bl_dl st))) W.
+  agreeW (with_reg b (reregister (b_reg b) (u_db u) (u_conn u) (bl_keys st) (bl_left st) (bl_dl st) (u_at u))) W.
 Proof.
   intros HA Hst.
   assert (Hdb : u_db u = bl_db st).
-  { destruct HA as (_ & A2 & _). destruct (A2 u (or_introl eq_refl)) as (st2 & U1 & U2 & _).
-    cbn [with_wake b_blk] in U1. rewrite Hst in U1. injection U1 as <-. exact U2. }
+  { destruct HA as (_ & A2 & _). destruct (A2 u (or_introl eq_refl)) as (_ & U2).
+    cbn [with_wake b_blk] in U2. destruct (U2 st Hst) as (G & _). exact G. }
+  pose proof (wake_unique_head b u W HA) as HW.
   destruct (agree_unblock b W u HA) as [H1 H2].
-  pose proof (agree_register_gen (unblock b (u_conn u)) W (u_conn u) st (b_blk b) H1 H2 Hst) as H3.
+  assert (Hnw : wakes_for (u_conn u) W = []) by (apply wakes_for_nil; exact HW).
+  pose proof (agree_reregister_gen (unblock b (u_conn u)) W (u_conn u) st (b_blk b) (u_at u) H1 H2 Hnw Hst) as H3.
   rewrite <- Hdb in H3. cbn [unblock with_blk b_reg] in H3. rewrite <- with_reg_unblock_restore with (c := u_conn u).
   apply H3. intros c2 Hne. cbn [b_blk]. symmetry. apply zlookup_zremove_other. exact Hne.
 Qed.
 
-Lemma agree_wake_client s b u W :
-  agreeW b (u :: W) ->
-  b_crashed (snd (wake_client s b u)) = true \/ agreeW (snd (wake_client s b u)) W.
+(** what a wake-up adds to the wake queue: nothing, except when it puts its element back for a
+    client that has gone - then the next waiter of the key is notified (0715a3b) *)
+Definition renotified (b : blocking) (db : Z) (k : bytes) : list wakeup :=
+  match reg_get (b_reg b) (db, k) with
+  | [] => []
+  | w :: _ => [{| u_conn := w_conn w; u_db := db; u_key := k; u_left := w_left w; u_at := w_at w |}]
+  end.
+Lemma notify_key_ready_wake b db k : b_wake (notify_key_ready b db k) = b_wake b ++ renotified b db k.
+Proof. unfold notify_key_ready, renotified. destruct (reg_get (b_reg b) (db, k)); [rewrite app_nil_r|]; reflexivity. Qed.
+Lemma notify_with_wake b W db k :
+  notify_key_ready (with_wake b W) db k = with_wake (notify_key_ready b db k) (W ++ renotified b db k).
+Proof.
+  unfold notify_key_ready, renotified. cbn [with_wake b_reg b_wake].
+  destruct (reg_get (b_reg b) (db, k)); [rewrite app_nil_r; reflexivity|reflexivity].
+Qed.
+Lemma app_self_nil {A} (l ex : list A) : l = l ++ ex -> ex = [].
+Proof. intros H. rewrite <- (app_nil_r l) in H at 1. apply app_inv_head in H. symmetry. exact H. Qed.
+Lemma wake_client_wake now s b u :
+  exists ex, b_wake (snd (wake_client now s b u)) = b_wake b ++ ex /\
+             (ex = [] \/ (zlookup (u_conn u) (b_blk b) = None /\ ex = renotified b (u_db u) (u_key u))).
+Proof.
+  unfold wake_client.
+  destruct (on_key (fst (purge_key now (get_db s (u_db u), []) (u_key u))) (u_key u) (e_pop (u_left u))) as [r d'].
+  destruct (zlookup (u_conn u) (b_blk b)) as [st|];
+    [destruct (recheck (bl_left st) d' (bl_keys st)) as [[[k v]|] d'']|]; destruct r; cbn [snd];
+    try (exists []; rewrite app_nil_r; split; [reflexivity|left; reflexivity]).
+  exists (renotified b (u_db u) (u_key u)). split; [apply notify_key_ready_wake|right; split; reflexivity].
+Qed.
+
+Lemma agree_wake_client now s b u W ex :
+  agreeW b (u :: W) -> b_wake (snd (wake_client now s b u)) = b_wake b ++ ex ->
+  agreeW (snd (wake_client now s b u)) (W ++ ex).
 Proof.
   intros HA. unfold wake_client.
-  assert (Hblk : exists st, zlookup (u_conn u) (b_blk b) = Some st).
-  { destruct HA as (_ & A2 & _). destruct (A2 u (or_introl eq_refl)) as (st & U1 & _). exists st. exact U1. }
-  destruct Hblk as (st & Hst).
-  destruct (on_key (get_db s (u_db u)) (u_key u) (e_pop (u_left u))) as [r d'].
-  destruct r; rewrite ?Hst; cbn [snd];
-    try (right; apply agree_reregister; assumption).
-  right. apply (agree_unblock (emit b (u_conn u) (FArray [FBulk (u_key u); FBulk b0])) W u). exact HA.
+  destruct (on_key (fst (purge_key now (get_db s (u_db u), []) (u_key u))) (u_key u) (e_pop (u_left u))) as [r d'].
+  destruct (zlookup (u_conn u) (b_blk b)) as [st|] eqn:Hst.
+  - assert (Deliver : forall k v, agreeW (unblock (emit b (u_conn u) (FArray [FBulk k; FBulk v])) (u_conn u)) W)
+      by (intros k v; apply (agree_unblock (emit b (u_conn u) (FArray [FBulk k; FBulk v])) W u); exact HA).
+    assert (Again : agreeW (snd (match recheck (bl_left st) d' (bl_keys st) with
+                                 | (Some (k, v), d'') => (set_db s (u_db u) d'', unblock (emit b (u_conn u) (FArray [FBulk k; FBulk v])) (u_conn u))
+                                 | (None, d'') => (set_db s (u_db u) d'', with_reg b (reregister (b_reg b) (u_db u) (u_conn u) (bl_keys st) (bl_left st) (bl_dl st) (u_at u)))
+                                 end)) W).
+    { destruct (recheck (bl_left st) d' (bl_keys st)) as [[[k v]|] d'']; cbn [snd]; [apply Deliver|apply agree_reregister; assumption]. }
+    assert (Enil : b_wake (snd (match recheck (bl_left st) d' (bl_keys st) with
+                                 | (Some (k, v), d'') => (set_db s (u_db u) d'', unblock (emit b (u_conn u) (FArray [FBulk k; FBulk v])) (u_conn u))
+                                 | (None, d'') => (set_db s (u_db u) d'', with_reg b (reregister (b_reg b) (u_db u) (u_conn u) (bl_keys st) (bl_left st) (bl_dl st) (u_at u)))
+                                 end)) = b_wake b)
+      by (destruct (recheck (bl_left st) d' (bl_keys st)) as [[[k v]|] d'']; reflexivity).
+    destruct r; cbn [snd]; intros E;
+      try (rewrite Enil in E; apply app_self_nil in E; subst ex; rewrite app_nil_r; exact Again).
+    cbn [unblock emit with_blk b_wake] in E. apply app_self_nil in E. subst ex. rewrite app_nil_r. apply Deliver.
+  - assert (Drop : agreeW b W) by (eapply agree_drop_wake; eauto).
+    destruct r; cbn [snd]; intros E; try (apply app_self_nil in E; subst ex; rewrite app_nil_r; exact Drop).
+    (* the element goes back, the next waiter of the key is notified *)
+    rewrite notify_key_ready_wake in E. apply app_inv_head in E. subst ex.
+    unfold agreeW in *. rewrite <- notify_with_wake. apply agree_notify. exact Drop.
+Qed.
+(** the shape the event loop needs: the rest of the batch, then the queue *)
+Lemma agree_wake_next now s b u l :
+  agreeW b (u :: l ++ b_wake b) ->
+  agreeW (snd (wake_client now s b u)) (l ++ b_wake (snd (wake_client now s b u))).
+Proof.
+  intros H. destruct (wake_client_wake now s b u) as (ex & E & _). rewrite E, app_assoc.
+  apply agree_wake_client; assumption.
 Qed.
 
 (** process_wakeups: the requests taken out of the queue are handled one after the other *)
-Lemma wake_client_wake s b u : b_wake (snd (wake_client s b u)) = b_wake b.
-Proof.
-  unfold wake_client. destruct (on_key (get_db s (u_db u)) (u_key u) (e_pop (u_left u))) as [r d'].
-  destruct r; cbn [snd]; try (destruct (zlookup (u_conn u) (b_blk b)); reflexivity); reflexivity.
-Qed.
-Lemma agree_wake_fold : forall l sb,
+Lemma agree_wake_fold now : forall l sb,
   (b_crashed (snd sb) = true \/ agreeW (snd sb) (l ++ b_wake (snd sb))) ->
-  b_crashed (snd (fold_left wake_step l sb)) = true \/ agree (snd (fold_left wake_step l sb)).
+  b_crashed (snd (fold_left (wake_step now) l sb)) = true \/ agree (snd (fold_left (wake_step now) l sb)).
 Proof.
   induction l as [|u l IH]; intros [s b] H; cbn [fold_left snd] in *.
   - destruct H as [H|H]; [left; exact H|right; apply agreeW_self; exact H].
   - apply IH. unfold wake_step. cbn [fst snd]. destruct (b_crashed b) eqn:Ec; [left; exact Ec|].
-    destruct H as [H|H]; [discriminate|]. cbn [app] in H.
-    destruct (agree_wake_client s b u (l ++ b_wake b) H) as [H1|H1]; [left; exact H1|right].
-    rewrite wake_client_wake. exact H1.
+    destruct H as [H|H]; [discriminate|]. cbn [app] in H. right.
+    apply agree_wake_next. exact H.
 Qed.
-Lemma agree_process_wakeups s b :
+Lemma agree_process_wakeups now s b :
   b_crashed b = true \/ agree b ->
-  b_crashed (snd (process_wakeups s b)) = true \/ agree (snd (process_wakeups s b)).
+  b_crashed (snd (process_wakeups now s b)) = true \/ agree (snd (process_wakeups now s b)).
 Proof.
   intros H. unfold process_wakeups. apply agree_wake_fold. cbn [snd with_wake b_crashed b_wake].
   destruct H as [H|H]; [left; exact H|right].
@@ -494,21 +669,18 @@ Proof.
     rewrite H4, T1 in T1'. injection T1' as <-. rewrite <- H3. apply expired_same_dl. congruence. }
   unfold agree, waiters_agree, wakes_agree, wakes_unique, blocked_registered.
   rewrite F1, F2.
-  repeat split.
+  split; [|split; [|split]].
   - intros rk q w Hin Hw. rewrite Hr' in Hin. apply in_expire in Hin. destruct Hin as [q0 [H1 H2]].
     subst q. apply filter_In in Hw. destruct Hw as [Hw Hlive].
     destruct (A1 _ _ _ H1 Hw) as (st & T1 & T2 & T3 & T4 & T5 & T6).
     exists st. rewrite F4. destruct (existsb (Z.eqb (w_conn w)) ex) eqn:Eex.
     + apply existsb_eqb_in in Eex. pose proof (Hall _ _ _ H1 Hw Eex) as Hx. unfold live_w in Hlive. rewrite Hx in Hlive. discriminate.
     + repeat split; assumption.
-  - intros u Hu. destruct (A2 u Hu) as (st & T1 & T2 & T3 & T4 & T5).
-    exists st. rewrite F4. destruct (existsb (Z.eqb (u_conn u)) ex) eqn:Eex.
-    + apply existsb_eqb_in in Eex. rewrite Hex in Eex. apply in_expired_ids in Eex.
-      destruct Eex as (rk3 & q3 & w3 & H1 & H2 & _ & H4).
-      pose proof (T5 _ _ H1) as Hz. rewrite cnt_zero in Hz. exfalso. exact (Hz w3 H2 H4).
-    + repeat split; try assumption. intros rk q Hin. rewrite Hr' in Hin. apply in_expire in Hin.
+  - intros u Hu. destruct (A2 u Hu) as (T5 & T6). split.
+    + intros rk q Hin. rewrite Hr' in Hin. apply in_expire in Hin.
       destruct Hin as [q0 [H1 H2]]. subst q. apply cnt_zero. intros w Hw. apply in_filter_sub in Hw.
       pose proof (T5 _ _ H1) as Hz. rewrite cnt_zero in Hz. apply Hz. exact Hw.
+    + intros st. rewrite F4. destruct (existsb (Z.eqb (u_conn u)) ex) eqn:Eex; [discriminate|]. apply T6.
   - exact A3.
   - intros c st Hc Hw k Hk. rewrite F4 in Hc. destruct (existsb (Z.eqb c) ex) eqn:Eex; [discriminate|].
     pose proof (A4 c st Hc Hw k Hk) as Hold. apply cnt_nonzero in Hold. destruct Hold as [w [H1 H2]].
@@ -578,10 +750,10 @@ Proof.
   eapply conns_rel_set_conn; eauto.
 Qed.
 
-Lemma normal_command_rel now s c dbi parts oracle r s' :
-  normal_command now s c dbi parts oracle = (r, s') -> conns_rel s s'.
+Lemma dispatch_command_rel now s c dbi parts oracle r s' :
+  dispatch_command now s c dbi parts oracle = (r, s') -> conns_rel s s'.
 Proof.
-  unfold normal_command. intros H.
+  unfold dispatch_command. intros H.
   destruct parts as [|first rest]; [inversion H; subst; apply conns_rel_refl|].
   destruct first; try (inversion H; subst; apply conns_rel_refl).
   set (s0 := if logs_before (upper b) (FBulk b :: rest) then log_aof_in s dbi (FBulk b :: rest) else s) in *.
@@ -609,13 +781,29 @@ Proof.
     inversion H; subst; [|exact R0].
   apply conns_rel_eq. cbn [set_trk set_db s_conns]. exact Hs0.
 Qed.
-Lemma exec_queue_rel now dbi : forall q s acc reps s',
-  exec_queue now s dbi q acc = (reps, s') -> conns_rel s s'.
+Lemma normal_command_rel now s c dbi parts oracle r s' :
+  normal_command now s c dbi parts oracle = (r, s') -> conns_rel s s'.
 Proof.
-  induction q as [|parts q IH]; intros s acc reps s' H; cbn [exec_queue] in H.
+  unfold normal_command. intros H.
+  destruct parts as [|first rest]; [inversion H; subst; apply conns_rel_refl|].
+  destruct first; try (inversion H; subst; apply conns_rel_refl).
+  eapply conns_rel_trans; [|eapply dispatch_command_rel; exact H].
+  apply conns_rel_eq. apply lazy_expire_rest.
+Qed.
+Lemma exec_queue_rel now c : forall q s dbi acc reps s',
+  exec_queue now s c dbi q acc = (reps, s') -> conns_rel s s'.
+Proof.
+  induction q as [|parts q IH]; intros s dbi acc reps s' H; cbn [exec_queue] in H.
   - inversion H; subst. apply conns_rel_refl.
-  - destruct (normal_command now s 0 dbi parts None) as [rep s1] eqn:E.
-    eapply conns_rel_trans; [eapply normal_command_rel; exact E|eapply IH; exact H].
+  - destruct (beq (queued_name parts) (bs "SELECT")).
+    + destruct (normal_command now s c dbi parts None) as [rep s1] eqn:E.
+      eapply conns_rel_trans; [eapply normal_command_rel; exact E|eapply IH; exact H].
+    + destruct (normal_command now s 0 dbi parts None) as [rep s1] eqn:E.
+      eapply conns_rel_trans; [eapply normal_command_rel; exact E|eapply IH; exact H].
+Qed.
+Lemma unwatch_all_conns : forall w s, s_conns (unwatch_all s w) = s_conns s.
+Proof.
+  unfold unwatch_all. induction w as [|kb w IH]; intros s; cbn [fold_left]; [reflexivity|]. rewrite IH. reflexivity.
 Qed.
 
 (** Server.process_frame neither adds nor removes a connection *)
@@ -633,29 +821,29 @@ Proof.
   { destruct (beq (upper (trim nm)) (bs "AUTH")); [apply conns_rel_dom; eapply h_auth_rel; exact H|].
     destruct (beq (upper (trim nm)) (bs "PING")); [eapply Same; exact H|].
     destruct (beq (upper (trim nm)) (bs "QUIT")); eapply Same; exact H. }
+  destruct (c_intx cn && negb (mem_name (upper (trim nm)) tx_not_queued)) eqn:Eq.
+  { inversion H; subst. eapply dom_same_set_conn; eauto. }
   destruct (beq (upper (trim nm)) (bs "MULTI")).
   { destruct (c_intx cn); [eapply Same; exact H|]. inversion H; subst. eapply dom_same_set_conn; eauto. }
   destruct (beq (upper (trim nm)) (bs "EXEC")).
   { unfold h_exec in H. cbv zeta in H. destruct (negb (c_intx cn)); [eapply Same; exact H|].
-    destruct (existsb _ (c_watched cn)).
+    destruct (watch_violated now s cn).
     - inversion H; subst. eapply dom_same_set_conn; eauto.
-    - revert H. destruct (exec_queue _ _ _ _ _) as [reps s2] eqn:E.
+    - revert H. destruct (exec_queue _ _ _ _ _ _) as [reps s2] eqn:E.
       intros H. inversion H; subst.
       pose proof (dom_same_set_conn s s c cn (clear_tx cn) eq_refl Hc) as D1.
-      pose proof (conns_rel_dom _ _ (exec_queue_rel _ _ _ _ _ _ _ E)) as D2.
+      pose proof (conns_rel_dom _ _ (exec_queue_rel _ _ _ _ _ _ _ _ E)) as D2.
       intros c'. etransitivity; [apply D2|apply D1]. }
   destruct (beq (upper (trim nm)) (bs "DISCARD")).
   { destruct (negb (c_intx cn)); [eapply Same; exact H|]. inversion H; subst. eapply dom_same_set_conn; eauto. }
   destruct (beq (upper (trim nm)) (bs "WATCH")).
   { destruct (len (FBulk nm :: rest) <? 2); [eapply Same; exact H|].
     destruct (c_intx cn) eqn:Ei; [eapply Same; exact H|].
-    destruct (watch_loop_partial (get_trk s (c_db cn)) rest (c_watched cn)) as [[t' w'] okb].
+    destruct (watch_loop_partial (c_db cn) (get_trk s (c_db cn)) rest (c_watched cn)) as [[t' w'] okb].
     inversion H; subst. eapply dom_same_set_conn with (s := s); eauto. }
   destruct (beq (upper (trim nm)) (bs "UNWATCH")).
-  { inversion H; subst. eapply dom_same_set_conn with (s := s); eauto. }
+  { inversion H; subst. eapply dom_same_set_conn with (s := s); [apply unwatch_all_conns|eauto]. }
   destruct (beq (upper (trim nm)) (bs "AUTH")); [apply conns_rel_dom; eapply h_auth_rel; exact H|].
-  destruct (c_intx cn && negb (mem_name (upper (trim nm)) tx_not_queued)) eqn:Eq.
-  { inversion H; subst. eapply dom_same_set_conn; eauto. }
   apply conns_rel_dom. eapply normal_command_rel; exact H.
 Qed.
 
@@ -668,8 +856,13 @@ Proof. intros <- H. apply agreeW_self. exact H. Qed.
 Definition blk_change (c : Z) (rep : frame) (b b' : blocking) : Prop :=
   b_blk b' = b_blk b \/ (rep = FNoResponse /\ exists st, b_blk b' = zset_ c st (b_blk b)).
 
+Lemma agree_ext b1 b2 : b_reg b2 = b_reg b1 -> b_wake b2 = b_wake b1 -> b_blk b2 = b_blk b1 -> agree b1 -> agree b2.
+Proof.
+  intros E1 E2 E3 H. unfold agree, waiters_agree, wakes_agree, wakes_unique, blocked_registered in *.
+  rewrite E1, E2, E3. exact H.
+Qed.
 Lemma h_bpop_inv left now s b c dbi parts oms rep s' b' :
-  agree b -> (c <> 0 -> zlookup c (b_blk b) = None /\ exists cn, zlookup c (s_conns s) = Some cn) ->
+  agree b -> (c <> 0 -> zlookup c (b_blk b) = None /\ wakes_for c (b_wake b) = [] /\ exists cn, zlookup c (s_conns s) = Some cn) ->
   h_bpop left now s b c dbi parts oms = (rep, s', b') ->
   agree b' /\ s_conns s' = s_conns s /\ b_crashed b' = b_crashed b /\ b_out b' = b_out b /\ blk_change c rep b b'
   /\ (c = 0 -> b' = b).
@@ -685,14 +878,14 @@ Proof.
   destruct (fast_path left (get_db s dbi) keys) as [[r0|] d'].
   - eapply Same; [|exact H]. reflexivity.
   - destruct (c =? 0) eqn:Ec0; [eapply Same; [|exact H]; reflexivity|].
-    assert (Hne : c <> 0) by lia. destruct (Hc0 Hne) as [Hnb [cn Hcn]].
+    assert (Hne : c <> 0) by lia. destruct (Hc0 Hne) as [Hnb [Hnw [cn Hcn]]].
     rewrite Hcn in H. injection H as E1 E2 E3. subst s' b' rep.
     set (st := {| bl_db := dbi; bl_keys := keys; bl_dl := option_map (fun ms => now + ms) tmo; bl_left := left |}).
     split; [|split; [reflexivity|split; [reflexivity|split; [reflexivity|split; [|intros; lia]]]]].
-    + apply agreeW_wake_eq with (W := b_wake b); [reflexivity|].
-      apply agreeW_self in HA.
-      exact (agree_register_gen b (b_wake b) c st (zset_ c st (b_blk b)) HA Hnb (zlookup_zset_same _ _ _)
-               (fun c2 Hne2 => zlookup_zset_other c c2 st (b_blk b) Hne2)).
+    + apply agreeW_self in HA.
+      pose proof (agree_register b (b_wake b) c st (zset_ c st (b_blk b)) (b_seq b) HA Hnb Hnw (zlookup_zset_same _ _ _)
+               (fun c2 Hne2 => zlookup_zset_other c c2 st (b_blk b) Hne2)) as H3.
+      eapply agree_ext; [| | |exact H3]; reflexivity.
     + right. split; [reflexivity|]. exists st. reflexivity.
 Qed.
 
@@ -700,22 +893,79 @@ Lemma bpop_parts_names nm rest :
   bpop_parts (FBulk nm :: rest) = beq (upper nm) (bs "BLPOP") || beq (upper nm) (bs "BRPOP").
 Proof. reflexivity. Qed.
 
+(** a name that trims to SELECT is neither a push nor a blocking pop nor EVAL: the queued
+    SELECT that handle_exec runs for the connection does not involve the blocking manager *)
+Lemma drop_while_head p a l : p a = false -> drop_while p (a :: l) = a :: l.
+Proof. intros H. cbn [drop_while]. rewrite H. reflexivity. Qed.
+Lemma rev_head_last : forall (l : bytes) a, exists x l', rev (a :: l) = x :: l' /\ x = last (a :: l) 0.
+Proof.
+  induction l as [|b l IH]; intros a; [exists a, []; split; reflexivity|].
+  destruct (IH b) as (x & l' & E & Hx). exists x, (l' ++ [a]). split.
+  - change (rev (a :: b :: l)) with (rev (b :: l) ++ [a]). rewrite E. reflexivity.
+  - rewrite Hx. reflexivity.
+Qed.
+Lemma trim_id a l : is_space a = false -> is_space (last (a :: l) 0) = false -> trim (a :: l) = a :: l.
+Proof.
+  intros H1 H2. unfold trim. rewrite (drop_while_head _ _ _ H1).
+  destruct (rev_head_last l a) as (x & l' & E & Hx). rewrite E, drop_while_head by (rewrite Hx; exact H2).
+  rewrite <- E. apply rev_involutive.
+Qed.
+Lemma upper1_space c : is_space (upper1 c) = false -> is_space c = false.
+Proof. unfold is_space, upper1. destruct ((97 <=? c) && (c <=? 122)) eqn:E; [lia|intros H; exact H]. Qed.
+Lemma last_map_upper : forall (l : bytes) a, last (map upper1 (a :: l)) 0 = upper1 (last (a :: l) 0).
+Proof.
+  induction l as [|b l IH]; intros a; [reflexivity|].
+  change (last (map upper1 (a :: b :: l)) 0) with (last (map upper1 (b :: l)) 0). rewrite IH. reflexivity.
+Qed.
+Lemma upper_nospace nm x X : upper nm = x :: X -> is_space x = false -> is_space (last (x :: X) 0) = false ->
+  upper (trim nm) = x :: X.
+Proof.
+  intros E H1 H2. destruct nm as [|a l]; [discriminate|]. rewrite trim_id; [exact E| |].
+  - apply upper1_space. unfold upper in E. cbn [map] in E. injection E as E _. rewrite E. exact H1.
+  - apply upper1_space. rewrite <- last_map_upper. unfold upper in E. rewrite E. exact H2.
+Qed.
+Lemma select_name nm X : beq (upper (trim nm)) (bs "SELECT") = true ->
+  (match X with x :: X' => is_space x = false /\ is_space (last X 0) = false | [] => False end) ->
+  beq X (bs "SELECT") = false -> beq (upper nm) X = false.
+Proof.
+  intros H HX Hne. destruct (beq (upper nm) X) eqn:E; [|reflexivity]. apply beq_eq in E.
+  destruct X as [|x X']; [contradiction|]. destruct HX as [H1 H2].
+  rewrite (upper_nospace nm x X' E H1 H2) in H. congruence.
+Qed.
+Lemma bnormal_select now s b c dbi parts o oms :
+  beq (queued_name parts) (bs "SELECT") = true ->
+  bnormal now s b c dbi parts o oms = (let (r, s') := normal_command now s c dbi parts o in (r, s', b)).
+Proof.
+  intros H. destruct parts as [|first rest]; [discriminate|]. destruct first; try discriminate.
+  cbn [queued_name] in H. unfold bnormal.
+  rewrite (select_name b0 (bs "BLPOP") H) by (vm_compute; auto).
+  rewrite (select_name b0 (bs "BRPOP") H) by (vm_compute; auto).
+  rewrite (select_name b0 (bs "EVAL") H) by (vm_compute; auto).
+  destruct (normal_command now s c dbi (FBulk b0 :: rest) o) as [r s1]. cbv zeta.
+  unfold notify_after_push, is_push_name.
+  rewrite (select_name b0 (bs "LPUSH") H) by (vm_compute; auto).
+  rewrite (select_name b0 (bs "RPUSH") H) by (vm_compute; auto). reflexivity.
+Qed.
+
 (** process_normal_command with the blocking manager: a blocking pop on a real connection needs
     one that exists and is not blocked (with the id 0 of EXEC it never blocks); anything else only
     notifies *)
 Lemma bnormal_inv now s b c dbi parts oracle oms rep s' b' :
   agree b ->
-  (bpop_parts parts = true -> c <> 0 -> zlookup c (b_blk b) = None /\ exists cn, zlookup c (s_conns s) = Some cn) ->
+  (bpop_parts parts = true -> c <> 0 -> zlookup c (b_blk b) = None /\ wakes_for c (b_wake b) = [] /\ exists cn, zlookup c (s_conns s) = Some cn) ->
   bnormal now s b c dbi parts oracle oms = (rep, s', b') ->
   agree b' /\ conns_rel s s' /\ b_crashed b' = b_crashed b /\ b_out b' = b_out b /\
   (if bpop_parts parts then blk_change c rep b b' /\ (c = 0 -> b' = b) else b_blk b' = b_blk b).
 Proof.
   intros HA Hg H. unfold bnormal in H.
-  assert (NC : forall nmx, (let (r, s'0) := normal_command now s c dbi parts oracle in (r, s'0, notify_after_push b dbi nmx parts r)) = (rep, s', b') ->
+  assert (NC : forall nmx (ev : bool), (let (r, s'0) := normal_command now s c dbi parts oracle in
+                (r, s'0, if ev then notify_after_script s'0 (notify_after_push b dbi nmx parts r) dbi parts else notify_after_push b dbi nmx parts r)) = (rep, s', b') ->
             agree b' /\ conns_rel s s' /\ b_crashed b' = b_crashed b /\ b_out b' = b_out b /\ b_blk b' = b_blk b).
-  { intros nmx E. destruct (normal_command now s c dbi parts oracle) as [r s1] eqn:En. injection E as E1 E2 E3. subst.
+  { intros nmx ev E. destruct (normal_command now s c dbi parts oracle) as [r s1] eqn:En. injection E as E1 E2 E3. subst.
     destruct (notify_after_push_fields b dbi nmx parts rep) as (F1 & F2 & F3 & _).
-    split; [apply agree_notify_after_push; exact HA|]. split; [eapply normal_command_rel; exact En|]. repeat split; assumption. }
+    destruct (notify_after_script_fields s' (notify_after_push b dbi nmx parts rep) dbi parts) as (K1 & K2 & K3 & _).
+    split; [destruct ev; [apply agree_notify_after_script|]; apply agree_notify_after_push; exact HA|].
+    split; [eapply normal_command_rel; exact En|]. destruct ev; repeat split; congruence. }
   destruct parts as [|first rest].
   { destruct (normal_command now s c dbi [] oracle) as [r s1] eqn:En. injection H as E1 E2 E3. subst.
     split; [exact HA|]. split; [eapply normal_command_rel; exact En|]. repeat split; reflexivity. }
@@ -723,40 +973,51 @@ Proof.
     try (destruct (normal_command now s c dbi _ oracle) as [r s1] eqn:En; injection H as E1 E2 E3; subst;
          split; [exact HA|]; split; [eapply normal_command_rel; exact En|]; repeat split; reflexivity).
   rewrite bpop_parts_names in *.
+  assert (Hg' : beq (upper nm) (bs "BLPOP") || beq (upper nm) (bs "BRPOP") = true -> c <> 0 ->
+                zlookup c (b_blk b) = None /\ wakes_for c (b_wake b) = [] /\
+                exists cn, zlookup c (s_conns (lazy_expire now s dbi (upper nm) (FBulk nm :: rest))) = Some cn).
+  { intros X Y. destruct (Hg X Y) as (G1 & G2 & G3). split; [exact G1|]. split; [exact G2|].
+    destruct (lazy_expire_rest now s dbi (upper nm) (FBulk nm :: rest)) as (L & _). rewrite L. exact G3. }
   destruct (beq (upper nm) (bs "BLPOP")) eqn:E1.
-  { destruct (h_bpop_inv _ _ _ _ _ _ _ _ _ _ _ HA (Hg eq_refl) H) as (G1 & G2 & G3 & G4 & G5 & G6).
-    split; [exact G1|]. split; [apply conns_rel_eq; exact G2|]. cbn [orb]. repeat split; assumption. }
+  { destruct (h_bpop_inv _ _ _ _ _ _ _ _ _ _ _ HA (Hg' eq_refl) H) as (G1 & G2 & G3 & G4 & G5 & G6).
+    split; [exact G1|]. split; [apply conns_rel_eq; rewrite G2; apply lazy_expire_rest|]. cbn [orb]. repeat split; assumption. }
   destruct (beq (upper nm) (bs "BRPOP")) eqn:E2.
-  { destruct (h_bpop_inv _ _ _ _ _ _ _ _ _ _ _ HA (Hg eq_refl) H) as (G1 & G2 & G3 & G4 & G5 & G6).
-    split; [exact G1|]. split; [apply conns_rel_eq; exact G2|]. cbn [orb]. repeat split; assumption. }
+  { destruct (h_bpop_inv _ _ _ _ _ _ _ _ _ _ _ HA (Hg' eq_refl) H) as (G1 & G2 & G3 & G4 & G5 & G6).
+    split; [exact G1|]. split; [apply conns_rel_eq; rewrite G2; apply lazy_expire_rest|]. cbn [orb]. repeat split; assumption. }
   cbn [orb]. eapply NC. exact H.
 Qed.
 
 (** the queue of an EXEC: nobody blocks, whatever is queued *)
-Lemma bexec_queue_inv now dbi : forall q s b acc reps s' b',
+Lemma bexec_queue_inv now c : forall q s b dbi acc reps s' b',
   agree b ->
-  bexec_queue now s b dbi q acc = (reps, s', b') ->
+  bexec_queue now s b c dbi q acc = (reps, s', b') ->
   agree b' /\ conns_rel s s' /\ b_crashed b' = b_crashed b /\ b_out b' = b_out b /\ b_blk b' = b_blk b.
 Proof.
-  induction q as [|parts q IH]; intros s b acc reps s' b' HA H; cbn [bexec_queue] in H.
+  induction q as [|parts q IH]; intros s b dbi acc reps s' b' HA H; cbn [bexec_queue] in H.
   - injection H as E1 E2 E3. subst. split; [exact HA|]. split; [apply conns_rel_refl|]. repeat split; reflexivity.
-  - destruct (bnormal now s b 0 dbi parts None None) as [[rep s1] b1] eqn:En.
-    assert (Hg : bpop_parts parts = true -> 0 <> 0 -> zlookup 0 (b_blk b) = None /\ exists cn, zlookup 0 (s_conns s) = Some cn)
+  - destruct (beq (queued_name parts) (bs "SELECT")) eqn:Esel.
+    { rewrite (bnormal_select _ _ _ _ _ _ _ _ Esel) in H.
+      destruct (normal_command now s c dbi parts None) as [rep s1] eqn:En.
+      destruct (IH _ _ _ _ _ _ _ HA H) as (K1 & K2 & K3 & K4 & K5).
+      split; [exact K1|]. split; [eapply conns_rel_trans; [eapply normal_command_rel; exact En|exact K2]|].
+      split; [exact K3|]. split; [exact K4|exact K5]. }
+    destruct (bnormal now s b 0 dbi parts None None) as [[rep s1] b1] eqn:En.
+    assert (Hg : bpop_parts parts = true -> 0 <> 0 -> zlookup 0 (b_blk b) = None /\ wakes_for 0 (b_wake b) = [] /\ exists cn, zlookup 0 (s_conns s) = Some cn)
       by (intros _ Hb; congruence).
     destruct (bnormal_inv _ _ _ _ _ _ _ _ _ _ _ HA Hg En) as (G1 & G2 & G3 & G4 & G5).
     assert (G5' : b_blk b1 = b_blk b) by (destruct (bpop_parts parts); [destruct G5 as [_ G5]; rewrite (G5 eq_refl); reflexivity|exact G5]).
-    destruct (IH _ _ _ _ _ _ G1 H) as (K1 & K2 & K3 & K4 & K5).
+    destruct (IH _ _ _ _ _ _ _ G1 H) as (K1 & K2 & K3 & K4 & K5).
     split; [exact K1|]. split; [eapply conns_rel_trans; eauto|]. repeat split; congruence.
 Qed.
 
 (** one frame: agreement, no connection 0 *)
 Lemma bprocess_frame_inv now s b c cn f oracle oms rep s' b' :
   agree b -> zlookup 0 (s_conns s) = None ->
-  zlookup c (s_conns s) = Some cn -> zlookup c (b_blk b) = None ->
+  zlookup c (s_conns s) = Some cn -> zlookup c (b_blk b) = None -> wakes_for c (b_wake b) = [] ->
   bprocess_frame now s b c f oracle oms = (rep, s', b') ->
   agree b' /\ dom_same s s' /\ b_crashed b' = b_crashed b /\ b_out b' = b_out b /\ blk_change c rep b b'.
 Proof.
-  intros HA H0 Hc Hnb H. unfold bprocess_frame in H.
+  intros HA H0 Hc Hnb Hnw H. unfold bprocess_frame in H.
   assert (Pass : (let (r, s'0) := process_frame now s c f oracle in (r, s'0, b)) = (rep, s', b') ->
             agree b' /\ dom_same s s' /\ b_crashed b' = b_crashed b /\ b_out b' = b_out b /\ blk_change c rep b b').
   { intros E. destruct (process_frame now s c f oracle) as [r s1] eqn:Ep. injection E as E1 E2 E3. subst.
@@ -766,42 +1027,44 @@ Proof.
   destruct first as [| | |nm| | | | | | | | |]; try (apply Pass; exact H).
   rewrite Hc in H.
   destruct ((match s_password s with Some _ => true | None => false end) && negb (c_auth cn)); [apply Pass; exact H|].
+  destruct (c_intx cn && negb (mem_name (upper (trim nm)) tx_not_queued)) eqn:Eq; [apply Pass; exact H|].
   destruct (beq (upper (trim nm)) (bs "MULTI")); [apply Pass; exact H|].
   destruct (beq (upper (trim nm)) (bs "EXEC")).
   { unfold bh_exec in H. cbv zeta in H.
     destruct (negb (c_intx cn)).
     { injection H as E1 E2 E3. subst. split; [exact HA|]. split; [apply dom_same_refl|].
       split; [reflexivity|]. split; [reflexivity|]. left. reflexivity. }
-    destruct (existsb _ (c_watched cn)).
+    destruct (watch_violated now s cn).
     { injection H as E1 E2 E3. subst. split; [exact HA|]. split; [eapply dom_same_set_conn; eauto|]. split; [reflexivity|]. split; [reflexivity|]. left. reflexivity. }
-    revert H. destruct (bexec_queue _ _ _ _ _ _) as [[reps s2] b2] eqn:E. intros H. injection H as E1 E2 E3. subst.
+    revert H. destruct (bexec_queue _ _ _ _ _ _ _) as [[reps s2] b2] eqn:E. intros H. injection H as E1 E2 E3. subst.
     pose proof (dom_same_set_conn s s c cn (clear_tx cn) eq_refl Hc) as D1.
-    destruct (bexec_queue_inv _ _ _ _ _ _ _ _ _ HA E) as (G1 & G2 & G3 & G4 & G5).
+    destruct (bexec_queue_inv _ _ _ _ _ _ _ _ _ _ HA E) as (G1 & G2 & G3 & G4 & G5).
     pose proof (conns_rel_dom _ _ G2) as D2.
     split; [exact G1|]. split; [intros c'; etransitivity; [apply D2|apply D1]|].
     split; [exact G3|]. split; [exact G4|]. left. exact G5. }
   destruct (beq (upper (trim nm)) (bs "DISCARD") || beq (upper (trim nm)) (bs "WATCH")
             || beq (upper (trim nm)) (bs "UNWATCH") || beq (upper (trim nm)) (bs "AUTH")); [apply Pass; exact H|].
-  destruct (c_intx cn && negb (mem_name (upper (trim nm)) tx_not_queued)) eqn:Eq; [apply Pass; exact H|].
-  assert (Hg' : bpop_parts (FBulk nm :: rest) = true -> c <> 0 -> zlookup c (b_blk b) = None /\ exists cn0, zlookup c (s_conns s) = Some cn0).
-  { intros _ _. split; [exact Hnb|]. exists cn. exact Hc. }
+  assert (Hg' : bpop_parts (FBulk nm :: rest) = true -> c <> 0 -> zlookup c (b_blk b) = None /\ wakes_for c (b_wake b) = [] /\ exists cn0, zlookup c (s_conns s) = Some cn0).
+  { intros _ _. split; [exact Hnb|]. split; [exact Hnw|]. exists cn. exact Hc. }
   destruct (bnormal_inv _ _ _ _ _ _ _ _ _ _ _ HA Hg' H) as (G1 & G2 & G3 & G4 & G5).
   split; [exact G1|]. split; [apply conns_rel_dom; exact G2|]. split; [exact G3|]. split; [exact G4|].
   destruct (bpop_parts (FBulk nm :: rest)); [exact (proj1 G5)|left; exact G5].
 Qed.
 
 (** ================= the invariant of the transition system ================= *)
-Lemma wake_client_conns s b u : s_conns (fst (wake_client s b u)) = s_conns s.
+Lemma wake_client_conns now s b u : s_conns (fst (wake_client now s b u)) = s_conns s.
 Proof.
-  unfold wake_client. destruct (on_key (get_db s (u_db u)) (u_key u) (e_pop (u_left u))) as [r d'].
-  destruct r; cbn [fst]; try (destruct (zlookup (u_conn u) (b_blk b)); reflexivity); reflexivity.
+  unfold wake_client.
+  destruct (on_key (fst (purge_key now (get_db s (u_db u), []) (u_key u))) (u_key u) (e_pop (u_left u))) as [r d'].
+  destruct (zlookup (u_conn u) (b_blk b)) as [st|];
+    [destruct (recheck (bl_left st) d' (bl_keys st)) as [[[k v]|] d'']|]; destruct r; reflexivity.
 Qed.
-Lemma wake_fold_conns : forall l sb, s_conns (fst (fold_left wake_step l sb)) = s_conns (fst sb).
+Lemma wake_fold_conns now : forall l sb, s_conns (fst (fold_left (wake_step now) l sb)) = s_conns (fst sb).
 Proof.
   induction l as [|u l IH]; intros sb; cbn [fold_left]; [reflexivity|]. rewrite IH.
   unfold wake_step. destruct (b_crashed (snd sb)); [reflexivity|]. apply wake_client_conns.
 Qed.
-Lemma process_wakeups_conns s b : s_conns (fst (process_wakeups s b)) = s_conns s.
+Lemma process_wakeups_conns now s b : s_conns (fst (process_wakeups now s b)) = s_conns s.
 Proof. unfold process_wakeups. rewrite wake_fold_conns. reflexivity. Qed.
 
 Lemma zlookup_zremove_some {A} k k' (l : list (Z * A)) v : zlookup k' (zremove k l) = Some v -> zlookup k' l = Some v.
@@ -810,52 +1073,388 @@ Proof.
   rewrite zlookup_zremove_other by exact E. auto.
 Qed.
 
-(** cleanup of a connection that is not Blocked: it has no registration, nothing changes for the others *)
-Lemma agree_unregister_all b c : agree b -> zlookup c (b_blk b) = None -> agree (with_reg b (unregister_all (b_reg b) c)).
+(** cleanup_connections of a connection, Blocked or not: it leaves every queue and is Blocked no
+    more; a wake-up under way for it stays in the queue (it will find nobody and put the element back) *)
+Lemma agree_drop_conn b c : agree b -> agree (drop_conn b c).
 Proof.
-  intros (A1 & A2 & A3 & A4) Hn.
-  unfold agree, waiters_agree, wakes_agree, wakes_unique, blocked_registered in *. cbn [with_reg b_reg b_wake b_blk].
-  repeat split.
-  - intros rk q w Hin Hw. apply in_unregister_all in Hin. destruct Hin as [q0 [H1 ->]]. apply in_filter_sub in Hw. eapply A1; eauto.
-  - intros u Hu. destruct (A2 u Hu) as (st & T1 & T2 & T3 & T4 & T5). exists st. repeat split; try assumption.
-    intros rk q Hin. apply in_unregister_all in Hin. destruct Hin as [q0 [H1 ->]]. apply cnt_zero. intros w Hw. apply in_filter_sub in Hw.
-    pose proof (T5 _ _ H1) as Hz. rewrite cnt_zero in Hz. apply Hz. exact Hw.
+  intros (A1 & A2 & A3 & A4).
+  unfold agree, waiters_agree, wakes_agree, wakes_unique, blocked_registered in *.
+  cbn [drop_conn with_in with_blk with_reg b_reg b_wake b_blk].
+  split; [|split; [|split]].
+  - intros rk q w Hin Hw. apply in_unregister_all in Hin. destruct Hin as [q0 [H1 ->]].
+    apply filter_In in Hw. destruct Hw as [Hw Hf]. unfold not_conn in Hf.
+    destruct (A1 _ _ _ H1 Hw) as (st & T1 & T). exists st. rewrite zlookup_zremove_other by lia. split; [exact T1|exact T].
+  - intros u Hu. destruct (A2 u Hu) as (T5 & T6). split.
+    + intros rk q Hin. apply in_unregister_all in Hin. destruct Hin as [q0 [H1 ->]]. apply cnt_zero. intros w Hw. apply in_filter_sub in Hw.
+      pose proof (T5 _ _ H1) as Hz. rewrite cnt_zero in Hz. apply Hz. exact Hw.
+    + intros st Hs. apply T6. eapply zlookup_zremove_some. exact Hs.
   - exact A3.
-  - intros c2 st Hc2 Hw k Hk. rewrite reg_get_unregister_all, cnt_filter_other by congruence. eapply A4; eauto.
+  - intros c2 st Hc2 Hw k Hk.
+    assert (Hne : c2 <> c) by (intros E; subst c2; rewrite zlookup_zremove_same in Hc2; discriminate).
+    rewrite zlookup_zremove_other in Hc2 by exact Hne.
+    rewrite reg_get_unregister_all, cnt_filter_other by exact Hne. eapply A4; eauto.
+Qed.
+Lemma drop_conn_fields b c :
+  b_wake (drop_conn b c) = b_wake b /\ b_out (drop_conn b c) = b_out b /\ b_crashed (drop_conn b c) = b_crashed b /\
+  b_dead (drop_conn b c) = b_dead b /\ forall c2, zlookup c2 (b_blk (drop_conn b c)) = if c2 =? c then None else zlookup c2 (b_blk b).
+Proof.
+  repeat split. intros c2. cbn [drop_conn with_in with_blk with_reg b_blk]. destruct (c2 =? c) eqn:E.
+  - apply Z.eqb_eq in E. subst. apply zlookup_zremove_same.
+  - apply zlookup_zremove_other. lia.
+Qed.
+Lemma drop_fold : forall l b,
+  (agree b -> agree (fold_left drop_conn l b)) /\
+  b_wake (fold_left drop_conn l b) = b_wake b /\ b_out (fold_left drop_conn l b) = b_out b /\
+  b_crashed (fold_left drop_conn l b) = b_crashed b /\ b_dead (fold_left drop_conn l b) = b_dead b /\
+  forall c2, zlookup c2 (b_blk (fold_left drop_conn l b)) = if existsb (Z.eqb c2) l then None else zlookup c2 (b_blk b).
+Proof.
+  induction l as [|c l IH]; intros b; cbn [fold_left existsb];
+    [split; [intros H; exact H|split; [|split; [|split; [|split]]]; reflexivity]|].
+  destruct (IH (drop_conn b c)) as (I1 & I2 & I3 & I4 & I5 & I6).
+  destruct (drop_conn_fields b c) as (D2 & D3 & D4 & D5 & D6).
+  split; [intros HA; apply I1; apply agree_drop_conn; exact HA|].
+  split; [congruence|]. split; [congruence|]. split; [congruence|]. split; [congruence|].
+  intros c2. rewrite I6, D6. destruct (c2 =? c); cbn [orb]; [destruct (existsb (Z.eqb c2) l); reflexivity|reflexivity].
+Qed.
+
+(** where the wake-ups of a state come from: they were there, or their connection was Blocked *)
+Definition NW (b b' : blocking) : Prop :=
+  forall u, In u (b_wake b') -> In u (b_wake b) \/ zlookup (u_conn u) (b_blk b) <> None.
+Lemma NW_refl b : NW b b.
+Proof. intros u Hu. left. exact Hu. Qed.
+Lemma NW_same b b' : b_wake b' = b_wake b -> NW b b'.
+Proof. intros E u Hu. left. rewrite <- E. exact Hu. Qed.
+Lemma NW_trans b1 b2 b3 : NW b1 b2 -> b_blk b2 = b_blk b1 -> NW b2 b3 -> NW b1 b3.
+Proof. intros H1 E H2 u Hu. destruct (H2 u Hu) as [G|G]; [apply H1; exact G|right; rewrite <- E; exact G]. Qed.
+Lemma notify_key_ready_nw b db k : agree b -> NW b (notify_key_ready b db k).
+Proof.
+  intros (A1 & _). unfold notify_key_ready. destruct (reg_get (b_reg b) (db, k)) as [|w q] eqn:Eg; [apply NW_refl|].
+  intros u Hu. cbn [with_wake with_reg b_wake] in Hu. apply in_app_or in Hu. destruct Hu as [Hu|[Hu|[]]]; [left; exact Hu|].
+  right. subst u. cbn [u_conn].
+  assert (Hw : In w (reg_get (b_reg b) (db, k))) by (rewrite Eg; left; reflexivity).
+  destruct (reg_get_in _ _ _ Hw) as [q0 [H1 H2]]. destruct (A1 _ _ _ H1 H2) as (st & T & _). congruence.
+Qed.
+Lemma notify_n_nw n : forall b db k, agree b -> NW b (notify_n n b db k).
+Proof.
+  induction n as [|n IH]; intros b db k HA; cbn [notify_n]; [apply NW_refl|].
+  destruct (reg_get (b_reg b) (db, k)); [apply NW_refl|].
+  eapply NW_trans; [apply notify_key_ready_nw; exact HA|apply notify_key_ready_fields|apply IH; apply agree_notify; exact HA].
+Qed.
+Lemma notify_after_push_nw b dbi name parts r : agree b -> NW b (notify_after_push b dbi name parts r).
+Proof.
+  intros HA. unfold notify_after_push. destruct (is_push_name name); [|apply NW_refl].
+  destruct r; try apply NW_refl. destruct parts as [|? [|[] [|? ?]]]; try apply NW_refl.
+  destruct (0 <? z); [|apply NW_refl]. apply notify_n_nw. exact HA.
+Qed.
+Lemma notify_after_script_nw s b dbi parts : agree b -> NW b (notify_after_script s b dbi parts).
+Proof.
+  unfold notify_after_script. generalize (firstn (match nth_error parts 2 with
+    | Some (FBulk t) => match parse_usize t with Some n => Z.to_nat n | None => O end | _ => O end) (skipn 3 parts)).
+  intros l. revert b. induction l as [|f l IH]; intros b HA; cbn [fold_left]; [apply NW_refl|].
+  destruct f; try (apply IH; exact HA).
+  eapply NW_trans; [apply notify_n_nw; exact HA|apply notify_n_fields|apply IH; apply agree_notify_n; exact HA].
+Qed.
+Lemma h_bpop_wake left now s b c dbi parts oms rep s' b' :
+  h_bpop left now s b c dbi parts oms = (rep, s', b') -> b_wake b' = b_wake b.
+Proof.
+  intros H. unfold h_bpop in H.
+  destruct (len parts <? 3); [injection H as _ _ <-; reflexivity|].
+  destruct (timeout_of (last parts FNull) oms); [|injection H as _ _ <-; reflexivity].
+  destruct (all_bulks (removelast (tl parts))); [|injection H as _ _ <-; reflexivity].
+  destruct (fast_path left (get_db s dbi) l) as [[r|] d']; [injection H as _ _ <-; reflexivity|].
+  destruct (c =? 0); [injection H as _ _ <-; reflexivity|].
+  destruct (zlookup c (s_conns s)); injection H as _ _ <-; reflexivity.
+Qed.
+Lemma bnormal_nw now s b c dbi parts oracle oms rep s' b' :
+  agree b -> bnormal now s b c dbi parts oracle oms = (rep, s', b') -> NW b b'.
+Proof.
+  intros HA H. unfold bnormal in H.
+  destruct parts as [|first rest]; [destruct (normal_command now s c dbi [] oracle); injection H as _ _ <-; apply NW_refl|].
+  destruct first as [| | |nm| | | | | | | | |];
+    try (destruct (normal_command now s c dbi _ oracle); injection H as _ _ <-; apply NW_refl).
+  destruct (beq (upper nm) (bs "BLPOP")); [apply NW_same; eapply h_bpop_wake; exact H|].
+  destruct (beq (upper nm) (bs "BRPOP")); [apply NW_same; eapply h_bpop_wake; exact H|].
+  destruct (normal_command now s c dbi (FBulk nm :: rest) oracle) as [r s1]. injection H as _ _ <-.
+  cbv zeta. destruct (beq (upper nm) _); [|apply notify_after_push_nw; exact HA].
+  eapply NW_trans; [apply notify_after_push_nw; exact HA|exact (proj1 (notify_after_push_fields _ _ _ _ _))|].
+  apply notify_after_script_nw. apply agree_notify_after_push. exact HA.
+Qed.
+Lemma bexec_queue_nw now c : forall q s b dbi acc reps s' b',
+  agree b -> bexec_queue now s b c dbi q acc = (reps, s', b') -> NW b b'.
+Proof.
+  induction q as [|parts q IH]; intros s b dbi acc reps s' b' HA H; cbn [bexec_queue] in H.
+  - injection H as _ _ <-. apply NW_refl.
+  - destruct (beq (queued_name parts) (bs "SELECT")) eqn:Esel.
+    { rewrite (bnormal_select _ _ _ _ _ _ _ _ Esel) in H.
+      destruct (normal_command now s c dbi parts None) as [rep s1]. eapply IH; eauto. }
+    destruct (bnormal now s b 0 dbi parts None None) as [[rep s1] b1] eqn:En.
+    assert (Hg : bpop_parts parts = true -> 0 <> 0 -> zlookup 0 (b_blk b) = None /\ wakes_for 0 (b_wake b) = [] /\ exists cn, zlookup 0 (s_conns s) = Some cn)
+      by (intros _ Hb; congruence).
+    destruct (bnormal_inv _ _ _ _ _ _ _ _ _ _ _ HA Hg En) as (G1 & _ & _ & _ & G5).
+    assert (G5' : b_blk b1 = b_blk b) by (destruct (bpop_parts parts); [destruct G5 as [_ G5]; rewrite (G5 eq_refl); reflexivity|exact G5]).
+    eapply NW_trans; [eapply bnormal_nw; eauto|exact G5'|eapply IH; eauto].
+Qed.
+Lemma bprocess_frame_nw now s b c f oracle oms rep s' b' :
+  agree b -> bprocess_frame now s b c f oracle oms = (rep, s', b') -> NW b b'.
+Proof.
+  intros HA H. unfold bprocess_frame in H.
+  assert (Pass : (let (r, s'0) := process_frame now s c f oracle in (r, s'0, b)) = (rep, s', b') -> NW b b').
+  { destruct (process_frame now s c f oracle). intros E. injection E as _ _ <-. apply NW_refl. }
+  destruct f as [| | | | |l| | | | | | |]; try (apply Pass; exact H).
+  destruct l as [|first rest]; [apply Pass; exact H|].
+  destruct first as [| | |nm| | | | | | | | |]; try (apply Pass; exact H).
+  destruct (zlookup c (s_conns s)) as [cn|]; [|apply Pass; exact H].
+  destruct (_ && negb (c_auth cn)); [apply Pass; exact H|].
+  destruct (c_intx cn && _); [apply Pass; exact H|].
+  destruct (beq (upper (trim nm)) (bs "MULTI")); [apply Pass; exact H|].
+  destruct (beq (upper (trim nm)) (bs "EXEC")).
+  { unfold bh_exec in H. cbv zeta in H. destruct (negb (c_intx cn)); [injection H as _ _ <-; apply NW_refl|].
+    destruct (watch_violated now s cn); [injection H as _ _ <-; apply NW_refl|].
+    revert H. destruct (bexec_queue _ _ _ _ _ _ _) as [[reps s2] b2] eqn:E. intros H. injection H as _ _ <-.
+    eapply bexec_queue_nw; eauto. }
+  destruct (_ || _ || _ || _); [apply Pass; exact H|].
+  eapply bnormal_nw; eauto.
+Qed.
+
+(** no request touches the list of the clients that went away *)
+Lemma h_bpop_dead left now s b c dbi parts oms rep s' b' :
+  h_bpop left now s b c dbi parts oms = (rep, s', b') -> b_dead b' = b_dead b.
+Proof.
+  intros H. unfold h_bpop in H.
+  destruct (len parts <? 3); [injection H as _ _ <-; reflexivity|].
+  destruct (timeout_of (last parts FNull) oms); [|injection H as _ _ <-; reflexivity].
+  destruct (all_bulks (removelast (tl parts))); [|injection H as _ _ <-; reflexivity].
+  destruct (fast_path left (get_db s dbi) l) as [[r|] d']; [injection H as _ _ <-; reflexivity|].
+  destruct (c =? 0); [injection H as _ _ <-; reflexivity|].
+  destruct (zlookup c (s_conns s)); injection H as _ _ <-; reflexivity.
+Qed.
+Lemma bnormal_dead now s b c dbi parts o oms rep s' b' :
+  bnormal now s b c dbi parts o oms = (rep, s', b') -> b_dead b' = b_dead b.
+Proof.
+  intros H. unfold bnormal in H.
+  destruct parts as [|p rest]; [destruct (normal_command now s c dbi [] o); injection H as _ _ <-; reflexivity|].
+  destruct p; try (destruct (normal_command now s c dbi _ o); injection H as _ _ <-; reflexivity).
+  destruct (beq (upper b0) (bs "BLPOP")); [eapply h_bpop_dead; exact H|].
+  destruct (beq (upper b0) (bs "BRPOP")); [eapply h_bpop_dead; exact H|].
+  destruct (normal_command now s c dbi (FBulk b0 :: rest) o) as [r s1]. injection H as _ _ <-.
+  destruct (notify_after_push_fields b dbi (upper b0) (FBulk b0 :: rest) r) as (_ & _ & _ & F & _).
+  cbv zeta. destruct (beq (upper b0) _); [|exact F].
+  destruct (notify_after_script_fields s1 (notify_after_push b dbi (upper b0) (FBulk b0 :: rest) r) dbi (FBulk b0 :: rest)) as (_ & _ & _ & K & _).
+  congruence.
+Qed.
+Lemma bexec_queue_dead now c : forall q s b dbi acc reps s' b',
+  bexec_queue now s b c dbi q acc = (reps, s', b') -> b_dead b' = b_dead b.
+Proof.
+  induction q as [|parts q IH]; intros s b dbi acc reps s' b' H; cbn [bexec_queue] in H.
+  - injection H as _ _ <-. reflexivity.
+  - destruct (beq (queued_name parts) (bs "SELECT")).
+    + destruct (bnormal now s b c dbi parts None None) as [[rep s1] b1] eqn:En.
+      rewrite (IH _ _ _ _ _ _ _ H). eapply bnormal_dead; exact En.
+    + destruct (bnormal now s b 0 dbi parts None None) as [[rep s1] b1] eqn:En.
+      rewrite (IH _ _ _ _ _ _ _ H). eapply bnormal_dead; exact En.
+Qed.
+Lemma bprocess_frame_dead now s b c f o oms rep s' b' :
+  bprocess_frame now s b c f o oms = (rep, s', b') -> b_dead b' = b_dead b.
+Proof.
+  intros H. unfold bprocess_frame in H.
+  assert (Pass : (let (r, s'0) := process_frame now s c f o in (r, s'0, b)) = (rep, s', b') -> b_dead b' = b_dead b).
+  { destruct (process_frame now s c f o). intros E. injection E as _ _ <-. reflexivity. }
+  destruct f as [| | | | |l| | | | | | |]; try (apply Pass; exact H).
+  destruct l as [|first rest]; [apply Pass; exact H|].
+  destruct first as [| | |nm| | | | | | | | |]; try (apply Pass; exact H).
+  destruct (zlookup c (s_conns s)) as [cn|]; [|apply Pass; exact H].
+  destruct (_ && negb (c_auth cn)); [apply Pass; exact H|].
+  destruct (c_intx cn && _); [apply Pass; exact H|].
+  destruct (beq (upper (trim nm)) (bs "MULTI")); [apply Pass; exact H|].
+  destruct (beq (upper (trim nm)) (bs "EXEC")).
+  { unfold bh_exec in H. cbv zeta in H. destruct (negb (c_intx cn)); [injection H as _ _ <-; reflexivity|].
+    destruct (watch_violated now s cn); [injection H as _ _ <-; reflexivity|].
+    revert H. destruct (bexec_queue _ _ _ _ _ _ _) as [[reps s2] b2] eqn:E. intros H. injection H as _ _ <-.
+    eapply bexec_queue_dead; exact E. }
+  destruct (_ || _ || _ || _); [apply Pass; exact H|].
+  eapply bnormal_dead; exact H.
+Qed.
+Lemma wake_client_misc now s b u :
+  b_dead (snd (wake_client now s b u)) = b_dead b /\
+  forall c2, zlookup c2 (b_blk (snd (wake_client now s b u))) = None <-> (zlookup c2 (b_blk b) = None \/ (c2 = u_conn u /\ zlookup c2 (b_blk (snd (wake_client now s b u))) = None)).
+Proof.
+  unfold wake_client.
+  destruct (on_key (fst (purge_key now (get_db s (u_db u), []) (u_key u))) (u_key u) (e_pop (u_left u))) as [r d'].
+  assert (Un : forall f, b_dead (unblock (emit b (u_conn u) f) (u_conn u)) = b_dead b /\
+             forall c2, zlookup c2 (b_blk (unblock (emit b (u_conn u) f) (u_conn u))) = None <->
+                        (zlookup c2 (b_blk b) = None \/ (c2 = u_conn u /\ zlookup c2 (b_blk (unblock (emit b (u_conn u) f) (u_conn u))) = None))).
+  { intros f. split; [reflexivity|]. intros c2. cbn [unblock emit with_blk b_blk]. destruct (Z.eq_dec c2 (u_conn u)) as [->|Hne].
+    - rewrite zlookup_zremove_same. split; [intros _; right; split; reflexivity|reflexivity].
+    - rewrite zlookup_zremove_other by exact Hne. split; [intros G; left; exact G|intros [G|[G _]]; [exact G|contradiction]]. }
+  assert (Id : forall bx, b_dead bx = b_dead b -> b_blk bx = b_blk b ->
+             b_dead bx = b_dead b /\ forall c2, zlookup c2 (b_blk bx) = None <-> (zlookup c2 (b_blk b) = None \/ (c2 = u_conn u /\ zlookup c2 (b_blk bx) = None))).
+  { intros bx E1 E2. split; [exact E1|]. intros c2. rewrite E2. split; [intros G; left; exact G|intros [G|[_ G]]; exact G]. }
+  destruct (zlookup (u_conn u) (b_blk b)) as [st|];
+    [destruct (recheck (bl_left st) d' (bl_keys st)) as [[[k v]|] d'']|]; destruct r; cbn [snd];
+    first [apply Un | apply Id; reflexivity
+          | apply Id; [exact (proj1 (proj2 (proj2 (proj2 (notify_key_ready_fields _ _ _)))))|exact (proj1 (notify_key_ready_fields _ _ _))]].
+Qed.
+
+Lemma wake_step_eq0 now s b u : wake_step now (s, b) u = if b_crashed b then (s, b) else wake_client now s b u.
+Proof. reflexivity. Qed.
+Lemma wake_client_crashed0 now s b u : b_crashed (snd (wake_client now s b u)) = b_crashed b.
+Proof.
+  unfold wake_client. destruct (on_key _ (u_key u) (e_pop (u_left u))) as [r d'].
+  destruct (zlookup (u_conn u) (b_blk b)) as [st|];
+    [destruct (recheck (bl_left st) d' (bl_keys st)) as [[[k v]|] d'']|]; destruct r; cbn [snd];
+    first [reflexivity | exact (proj1 (proj2 (proj2 (notify_key_ready_fields _ _ _))))].
+Qed.
+(** the wake-up step: the queue loses its first 32 requests (re-notifications join its back),
+    nobody goes on the list of the clients that went away, and only connections whose request was
+    handled can have left the Blocked state *)
+Lemma process_wakeups_misc now s b :
+  b_dead (snd (process_wakeups now s b)) = b_dead b /\
+  (exists ex, b_wake (snd (process_wakeups now s b)) = skipn 32 (b_wake b) ++ ex) /\
+  forall c2, zlookup c2 (b_blk (snd (process_wakeups now s b))) = None ->
+             zlookup c2 (b_blk b) = None \/ In c2 (map u_conn (firstn 32 (b_wake b))).
+Proof.
+  unfold process_wakeups.
+  assert (F : forall l sb, b_dead (snd (fold_left (wake_step now) l sb)) = b_dead (snd sb) /\
+             (exists ex, b_wake (snd (fold_left (wake_step now) l sb)) = b_wake (snd sb) ++ ex) /\
+             forall c2, zlookup c2 (b_blk (snd (fold_left (wake_step now) l sb))) = None ->
+                        zlookup c2 (b_blk (snd sb)) = None \/ In c2 (map u_conn l)).
+  { induction l as [|u l IH]; intros sb; cbn [fold_left map];
+      [split; [reflexivity|split; [exists []; rewrite app_nil_r; reflexivity|intros c2 Hn; left; exact Hn]]|].
+    destruct (IH (wake_step now sb u)) as (I1 & (ex2 & I2) & I3).
+    assert (W : b_dead (snd (wake_step now sb u)) = b_dead (snd sb) /\ (exists ex, b_wake (snd (wake_step now sb u)) = b_wake (snd sb) ++ ex) /\
+                forall c2, zlookup c2 (b_blk (snd (wake_step now sb u))) = None -> zlookup c2 (b_blk (snd sb)) = None \/ c2 = u_conn u).
+    { unfold wake_step. destruct (b_crashed (snd sb));
+        [split; [reflexivity|split; [exists []; rewrite app_nil_r; reflexivity|intros c2 Hn; left; exact Hn]]|].
+      destruct (wake_client_misc now (fst sb) (snd sb) u) as (M1 & M2). split; [exact M1|].
+      split; [destruct (wake_client_wake now (fst sb) (snd sb) u) as (ex & E & _); exists ex; exact E|].
+      intros c2 Hn. apply M2 in Hn. destruct Hn as [Hn|[Hn _]]; [left; exact Hn|right; exact Hn]. }
+    destruct W as (W1 & (ex1 & W2) & W3). split; [congruence|]. split; [exists (ex1 ++ ex2); rewrite I2, W2, app_assoc; reflexivity|].
+    intros c2 Hn. destruct (I3 c2 Hn) as [G|G]; [destruct (W3 c2 G) as [G2|G2]; [left; exact G2|right; left; congruence]|right; right; exact G]. }
+  destruct (F (firstn 32 (b_wake b)) (s, with_wake b (skipn 32 (b_wake b)))) as (F1 & F2 & F3).
+  cbn [snd with_wake b_dead b_wake b_blk] in F1, F2, F3. split; [exact F1|]. split; [exact F2|exact F3].
+Qed.
+(** a wake-up that is (still or newly) queued for a connection that is not Blocked belongs to a
+    connection that was like that before: P is any property of such connections *)
+Lemma wake_fold_gone now (P : Z -> Prop) : forall l s b,
+  agreeW b (l ++ b_wake b) -> b_crashed b = false ->
+  (forall x, In x (l ++ b_wake b) -> zlookup (u_conn x) (b_blk b) = None -> P (u_conn x)) ->
+  forall x, In x (b_wake (snd (fold_left (wake_step now) l (s, b)))) ->
+            zlookup (u_conn x) (b_blk (snd (fold_left (wake_step now) l (s, b)))) = None -> P (u_conn x).
+Proof.
+  induction l as [|u l IH]; intros s b HA Hc HG; cbn [fold_left snd].
+  - intros x Hx Hn. apply HG; assumption.
+  - rewrite wake_step_eq0, Hc. cbn [app] in HA.
+    pose proof (agree_wake_next now s b u l HA) as Hnext.
+    destruct (wake_client_wake now s b u) as (ex & E & Eex).
+    destruct (wake_client_misc now s b u) as (_ & M2).
+    pose proof (wake_client_crashed0 now s b u) as Hcr.
+    destruct (wake_client now s b u) as [s1 b1]. cbn [snd] in *.
+    apply IH; [exact Hnext|congruence|].
+    intros x Hx Hn. rewrite E, app_assoc in Hx. apply in_app_or in Hx. destruct Hx as [Hx|Hx].
+    + apply M2 in Hn. destruct Hn as [Hn|[Hn _]]; [apply HG; [right; exact Hx|exact Hn]|].
+      exfalso. destruct HA as (_ & _ & A3 & _). unfold wakes_unique in A3. cbn [with_wake b_wake map] in A3.
+      apply NoDup_cons_iff in A3. destruct A3 as [A3 _]. apply A3. rewrite <- Hn. apply in_map. exact Hx.
+    + destruct Eex as [->|(Hnb & ->)]; [destruct Hx|]. exfalso.
+      unfold renotified in Hx. destruct (reg_get (b_reg b) (u_db u, u_key u)) as [|w q] eqn:Eg; [destruct Hx|].
+      destruct Hx as [<-|[]]. cbn [u_conn] in Hn.
+      assert (Hw : In w (reg_get (b_reg b) (u_db u, u_key u))) by (rewrite Eg; left; reflexivity).
+      destruct (reg_get_in _ _ _ Hw) as [q0 [K1 K2]]. destruct HA as (A1 & _).
+      destruct (A1 _ _ _ K1 K2) as (st & T & _). cbn [with_wake b_blk] in T.
+      apply M2 in Hn. destruct Hn as [Hn|[Hn _]]; congruence.
+Qed.
+Lemma drop_fold_reg : forall l b rk w, In w (reg_get (b_reg (fold_left drop_conn l b)) rk) -> In w (reg_get (b_reg b) rk).
+Proof.
+  induction l as [|c l IH]; intros b rk w H; cbn [fold_left] in H; [exact H|].
+  apply IH in H. cbn [drop_conn with_in with_blk with_reg b_reg] in H. rewrite reg_get_unregister_all in H.
+  eapply in_filter_sub; exact H.
 Qed.
 
 Theorem inv_step st e : inv st -> ok st e = true -> inv (step st e).
 Proof.
-  destruct st as [s b]. intros HI Hok. unfold inv in *. cbn [fst snd] in HI. cbn [step].
+  destruct st as [s b]. intros HI Hok. unfold inv, gone_ok in *. cbn [fst snd] in HI. cbn [step].
   destruct (b_crashed b) eqn:Ecr; [left; exact Ecr|].
-  destruct HI as [HI|(HA & H0)]; [congruence|].
-  destruct e as [now c f oms| |now|c|c]; cbn [ok] in *.
+  destruct HI as [HI|(HA & H0 & HO & HD)]; [congruence|].
+  destruct e as [now c f oms|now|now|c|c|]; cbn [ok] in *.
   - (* a frame *)
     destruct (zlookup c (s_conns s)) as [cn|] eqn:Hc; [|discriminate].
     apply andb_true_iff in Hok. destruct Hok as [Hnb Hq].
     apply negb_true_iff in Hnb. apply is_blocked_false in Hnb.
+    assert (Hnw : wakes_for c (b_wake b) = []).
+    { apply wakes_for_nil. intros u Hu E. pose proof (HO u Hu) as G. rewrite E in G. specialize (G Hnb). congruence. }
     unfold frame_step. destruct (bprocess_frame now s b c f None oms) as [[rep s'] b'] eqn:E. cbn [fst snd].
-    destruct (bprocess_frame_inv _ _ _ _ _ _ _ _ _ _ _ HA H0 Hc Hnb E) as (G1 & G3 & G4 & G5 & G6).
-    right. split; [destruct rep; exact G1|]. apply G3. exact H0.
+    destruct (bprocess_frame_inv _ _ _ _ _ _ _ _ _ _ _ HA H0 Hc Hnb Hnw E) as (G1 & G3 & G4 & G5 & G6).
+    pose proof (bprocess_frame_nw _ _ _ _ _ _ _ _ _ _ HA E) as G7.
+    pose proof (bprocess_frame_dead _ _ _ _ _ _ _ _ _ _ E) as G8.
+    assert (Hblk : forall c2, zlookup c2 (b_blk b') = None -> zlookup c2 (b_blk b) = None).
+    { intros c2 Hn. destruct G6 as [G6|(_ & st & G6)]; [rewrite <- G6; exact Hn|].
+      rewrite G6 in Hn. destruct (Z.eq_dec c2 c) as [->|Hne]; [rewrite zlookup_zset_same in Hn; discriminate|].
+      rewrite zlookup_zset_other in Hn by exact Hne. exact Hn. }
+    right. split; [destruct rep; exact G1|]. split; [apply G3; exact H0|].
+    assert (Goal : (forall u, In u (b_wake b') -> zlookup (u_conn u) (b_blk b') = None -> zlookup (u_conn u) (s_conns s') = None)
+                   /\ (forall c0, In c0 (b_dead b') -> zlookup c0 (s_conns s') = None)).
+    { split.
+      - intros u Hu Hn. apply G3. destruct (G7 u Hu) as [G|G]; [apply HO; [exact G|apply Hblk; exact Hn]|].
+        exfalso. apply G. apply Hblk. exact Hn.
+      - intros c0 Hin. rewrite G8 in Hin. apply G3. apply HD. exact Hin. }
+    destruct rep; exact Goal.
   - (* wake-ups *)
-    destruct (agree_process_wakeups s b (or_intror HA)) as [H|H]; [left; exact H|right].
-    split; [exact H|]. rewrite process_wakeups_conns. exact H0.
+    destruct (agree_process_wakeups now s b (or_intror HA)) as [H|H]; [left; exact H|right].
+    split; [exact H|]. rewrite process_wakeups_conns. split; [exact H0|].
+    destruct (process_wakeups_misc now s b) as (F1 & _ & _).
+    split.
+    + assert (HA' : agreeW (with_wake b (skipn 32 (b_wake b))) (firstn 32 (b_wake b) ++ b_wake (with_wake b (skipn 32 (b_wake b))))).
+      { cbn [with_wake b_wake]. unfold agreeW. rewrite firstn_skipn. apply agreeW_self in HA. unfold agreeW in HA. destruct b; exact HA. }
+      unfold process_wakeups.
+      apply (wake_fold_gone now (fun c => zlookup c (s_conns s) = None) (firstn 32 (b_wake b)) s (with_wake b (skipn 32 (b_wake b))) HA' Ecr).
+      intros x Hx Hn. cbn [with_wake b_wake b_blk] in Hx, Hn. rewrite firstn_skipn in Hx. apply HO; assumption.
+    + intros c0 Hin. rewrite F1 in Hin. apply HD. exact Hin.
   - (* timeouts *)
-    right. cbn [fst snd]. split; [apply agree_process_timeouts; exact HA|]. assumption.
+    right. cbn [fst snd]. split; [apply agree_process_timeouts; exact HA|]. split; [exact H0|].
+    unfold process_timeouts. destruct (expire_reg now (b_reg b)) as [ex r'] eqn:Ee.
+    destruct (timeout_fold ex (with_reg b r')) as (_ & T2 & _ & T4). cbn [with_reg b_wake b_blk] in T2, T4.
+    assert (Td : forall ex0 bx, b_dead (fold_left timeout_conn ex0 bx) = b_dead bx).
+    { induction ex0 as [|c0 ex0 IH]; intros bx; cbn [fold_left]; [reflexivity|]. rewrite IH. unfold timeout_conn. destruct (zlookup c0 (b_blk bx)); reflexivity. }
+    split.
+    + intros u Hu Hn. rewrite T2 in Hu. rewrite T4 in Hn. destruct (existsb (Z.eqb (u_conn u)) ex) eqn:Eex; [|apply HO; assumption].
+      (* a connection with a wake-up under way has no registration, so it cannot time out *)
+      exfalso. apply existsb_eqb_in in Eex. assert (ex = fst (expire_reg now (b_reg b))) by (rewrite Ee; reflexivity). subst ex.
+      apply in_expired_ids in Eex. destruct Eex as (rk3 & q3 & w3 & H1 & H2 & _ & H4).
+      destruct HA as (_ & A2 & _). destruct (A2 u Hu) as (T5 & _). pose proof (T5 _ _ H1) as Hz. rewrite cnt_zero in Hz. exact (Hz w3 H2 H4).
+    + intros c0 Hin. rewrite Td in Hin. apply HD. exact Hin.
   - (* a client connects *)
+    apply andb_true_iff in Hok. destruct Hok as [Hok Hnd]. apply andb_true_iff in Hok. destruct Hok as [Hok Hnw].
     apply andb_true_iff in Hok. destruct Hok as [Hok Hfresh]. apply andb_true_iff in Hok. destruct Hok as [Hne _].
     right. unfold connect. cbn [fst snd set_conn s_conns]. split; [exact HA|].
-    rewrite zlookup_zset_other by lia. exact H0.
+    split; [rewrite zlookup_zset_other by lia; exact H0|]. split.
+    + intros u Hu Hn. assert (u_conn u <> c).
+      { intros E. destruct (wakes_for c (b_wake b)) eqn:Ew; [|discriminate]. rewrite wakes_for_nil in Ew. exact (Ew u Hu E). }
+      rewrite zlookup_zset_other by exact H. apply HO; assumption.
+    + intros c0 Hin. assert (c0 <> c).
+      { intros E. subst c0. apply negb_true_iff in Hnd. assert (existsb (Z.eqb c) (b_dead b) = true) by (apply existsb_eqb_in; exact Hin). congruence. }
+      rewrite zlookup_zset_other by exact H. apply HD. exact Hin.
   - (* a client goes away *)
-    right. cbn [fst snd del_conn s_conns]. split.
-    { destruct (is_blocked b c) eqn:Eb; [exact HA|]. apply agree_unregister_all; [exact HA|]. apply is_blocked_false. exact Eb. }
-    destruct (Z.eq_dec 0 c) as [E|E]; [subst; apply zlookup_zremove_same|rewrite zlookup_zremove_other by exact E; exact H0].
+    right. cbn [fst snd del_conn s_conns with_dead b_wake b_blk b_dead]. split; [exact HA|].
+    split; [destruct (Z.eq_dec 0 c) as [E|E]; [subst; apply zlookup_zremove_same|rewrite zlookup_zremove_other by exact E; exact H0]|].
+    assert (Rm : forall c2, zlookup c2 (s_conns s) = None -> zlookup c2 (zremove c (s_conns s)) = None).
+    { intros c2 G. destruct (Z.eq_dec c2 c) as [->|Hne]; [apply zlookup_zremove_same|rewrite zlookup_zremove_other by exact Hne; exact G]. }
+    split.
+    + intros u Hu Hn. apply Rm. apply HO; assumption.
+    + intros c0 [<-|Hin]; [apply zlookup_zremove_same|apply Rm; apply HD; exact Hin].
+  - (* the server notices the clients that went away *)
+    right. cbn [fst snd]. unfold reap_dead.
+    destruct (drop_fold (filter (noticed b) (b_dead b)) (with_dead b (filter (fun c => negb (noticed b c)) (b_dead b)))) as (D1 & D2 & _ & _ & D5 & D6).
+    cbn [with_dead b_wake b_dead b_blk] in D2, D5, D6.
+    split; [apply D1; exact HA|]. split; [exact H0|]. split.
+    + intros u Hu Hn. rewrite D2 in Hu. rewrite D6 in Hn. destruct (existsb (Z.eqb (u_conn u)) (filter (noticed b) (b_dead b))) eqn:Eex.
+      * apply existsb_eqb_in in Eex. apply in_filter_sub in Eex. apply HD. exact Eex.
+      * apply HO; assumption.
+    + intros c0 Hin. rewrite D5 in Hin. apply in_filter_sub in Hin. apply HD. exact Hin.
 Qed.
 
 Lemma inv_init pw : inv (init_server pw, init_blocking).
 Proof.
-  right. cbn [fst snd]. split; [|reflexivity].
-  repeat split.
+  right. cbn [fst snd]. split; [|split; [reflexivity|split; [intros u []|intros c []]]].
+  split; [|split; [|split]].
   - intros rk q w [].
   - intros u [].
   - constructor.
@@ -925,32 +1524,47 @@ Proof.
   - intros c Hn. rewrite F4. destruct (existsb (Z.eqb c) ex); [reflexivity|exact Hn].
 Qed.
 
-(** wake-ups: [key, element] to connections that were Blocked on that key, one each *)
-Lemma wake_client_out s b u W : agreeW b (u :: W) ->
-  let b' := snd (wake_client s b u) in
+(** wake-ups: [key, element] to connections that were Blocked on that key, one each; since
+    8ab686d a wake-up that finds its own key empty tries the other keys of the call, so the
+    key of the reply is one of the keys of the call, not always the key of the wake-up *)
+Lemma recheck_some left : forall keys d k v d', recheck left d keys = (Some (k, v), d') -> bmem k keys = true.
+Proof.
+  induction keys as [|k0 keys IH]; intros d k v d' H; cbn [recheck] in H; [discriminate|].
+  cbn [bmem]. destruct (on_key d k0 (e_pop left)) as [r d1].
+  destruct r; try (rewrite (IH _ _ _ _ H); apply orb_true_r).
+  injection H as <- _ _. rewrite beq_refl. reflexivity.
+Qed.
+Lemma wake_client_out now s b u W : agreeW b (u :: W) ->
+  let b' := snd (wake_client now s b u) in
   (b_out b' = b_out b /\ b_blk b' = b_blk b) \/
-  (exists st v, zlookup (u_conn u) (b_blk b) = Some st /\ bmem (u_key u) (bl_keys st) = true /\
-                b_out b' = (u_conn u, FArray [FBulk (u_key u); FBulk v]) :: b_out b /\
+  (exists st k v, zlookup (u_conn u) (b_blk b) = Some st /\ bmem k (bl_keys st) = true /\
+                b_out b' = (u_conn u, FArray [FBulk k; FBulk v]) :: b_out b /\
                 b_blk b' = zremove (u_conn u) (b_blk b)).
 Proof.
   intros HA. cbv zeta. unfold wake_client.
-  destruct HA as (_ & A2 & _). destruct (A2 u (or_introl eq_refl)) as (st & U1 & _ & U3 & _).
-  cbn [with_wake b_blk] in U1.
-  destruct (on_key (get_db s (u_db u)) (u_key u) (e_pop (u_left u))) as [r d'].
-  destruct r; rewrite ?U1; cbn [snd]; try (left; split; reflexivity).
-  right. exists st, b0. repeat split; first [assumption|reflexivity].
+  destruct HA as (_ & A2 & _). destruct (A2 u (or_introl eq_refl)) as (_ & U).
+  cbn [with_wake b_blk] in U.
+  destruct (on_key _ (u_key u) (e_pop (u_left u))) as [r d'].
+  destruct (zlookup (u_conn u) (b_blk b)) as [st|] eqn:Eb.
+  - destruct (U st eq_refl) as (U1 & U2 & U3).
+    destruct r; cbn [snd];
+      try (destruct (recheck (bl_left st) d' (bl_keys st)) as [[[k v]|] d''] eqn:Er; cbn [snd];
+           [right; exists st, k, v; split; [reflexivity|]; split; [eapply recheck_some; exact Er|]; split; reflexivity
+           |left; split; reflexivity]).
+    right. exists st, (u_key u), b0. split; [reflexivity|]. split; [exact U2|]. split; reflexivity.
+  - destruct r; cbn [snd]; left; (split; first [reflexivity|exact (proj1 (proj2 (notify_key_ready_fields _ _ _)))|exact (proj1 (notify_key_ready_fields _ _ _))]).
 Qed.
 Definition delivery_of (b : blocking) (c : Z) (f : frame) : Prop :=
   exists st k v, zlookup c (b_blk b) = Some st /\ bmem k (bl_keys st) = true /\ f = FArray [FBulk k; FBulk v].
 
-Lemma wake_step_eq s b u : wake_step (s, b) u = if b_crashed b then (s, b) else wake_client s b u.
+Lemma wake_step_eq now s b u : wake_step now (s, b) u = if b_crashed b then (s, b) else wake_client now s b u.
 Proof. reflexivity. Qed.
-Lemma wake_fold_out : forall l s b,
+Lemma wake_fold_out now : forall l s b,
   (b_crashed b = true \/ agreeW b (l ++ b_wake b)) ->
-  exists new, b_out (snd (fold_left wake_step l (s, b))) = rev new ++ b_out b
+  exists new, b_out (snd (fold_left (wake_step now) l (s, b))) = rev new ++ b_out b
     /\ (forall c f, In (c, f) new -> In c (map u_conn l) /\ delivery_of b c f)
     /\ NoDup (map fst new)
-    /\ (forall c, zlookup c (b_blk (snd (fold_left wake_step l (s, b)))) =
+    /\ (forall c, zlookup c (b_blk (snd (fold_left (wake_step now) l (s, b)))) =
                   if existsb (Z.eqb c) (map fst new) then None else zlookup c (b_blk b)).
 Proof.
   induction l as [|u l IH]; intros s b H; cbn [fold_left snd].
@@ -959,22 +1573,22 @@ Proof.
     + destruct (IH s b (or_introl Ec)) as (new & H1 & H2 & H3 & H4). exists new. split; [exact H1|].
       split; [|split; assumption]. intros c f Hin. destruct (H2 c f Hin) as [G1 G2]. split; [right; exact G1|exact G2].
     + destruct H as [H|H]; [congruence|]. cbn [app] in H.
-      pose proof (agree_wake_client s b u (l ++ b_wake b) H) as Hnext. rewrite <- (wake_client_wake s b u) in Hnext.
-      pose proof (wake_client_out s b u (l ++ b_wake b) H) as Hout. cbv zeta in Hout.
-      destruct (wake_client s b u) as [s1 b1]. cbn [snd] in *.
-      destruct (IH s1 b1 Hnext) as (new & H1 & H2 & H3 & H4).
+      pose proof (agree_wake_next now s b u l H) as Hnext.
+      pose proof (wake_client_out now s b u (l ++ b_wake b) H) as Hout. cbv zeta in Hout.
+      destruct (wake_client now s b u) as [s1 b1]. cbn [snd] in *.
+      destruct (IH s1 b1 (or_intror Hnext)) as (new & H1 & H2 & H3 & H4).
       assert (Hnd : ~ In (u_conn u) (map u_conn l)).
       { destruct H as (_ & _ & A3 & _). unfold wakes_unique in A3. cbn [with_wake b_wake map] in A3.
-        inversion A3; subst. intros Hin. apply H5. rewrite map_app. apply in_or_app. left. exact Hin. }
-      destruct Hout as [[O1 O2]|(st & v & O1 & O2 & O3 & O4)].
+        apply NoDup_cons_iff in A3. destruct A3 as [A3 _]. intros Hin. apply A3. rewrite map_app. apply in_or_app. left. exact Hin. }
+      destruct Hout as [[O1 O2]|(st & k & v & O1 & O2 & O3 & O4)].
       * exists new. rewrite H1, O1. split; [reflexivity|]. split; [|split; [exact H3|]].
         -- intros c f Hin. destruct (H2 c f Hin) as [G1 G2]. split; [right; exact G1|].
            unfold delivery_of in *. rewrite O2 in G2. exact G2.
         -- intros c. rewrite H4, O2. reflexivity.
-      * exists ((u_conn u, FArray [FBulk (u_key u); FBulk v]) :: new). rewrite H1, O3.
+      * exists ((u_conn u, FArray [FBulk k; FBulk v]) :: new). rewrite H1, O3.
         split; [cbn [rev]; rewrite <- app_assoc; reflexivity|]. split; [|split].
         -- intros c f [Hin|Hin].
-           ++ injection Hin as <- <-. split; [left; reflexivity|]. exists st, (u_key u), v. repeat split; assumption.
+           ++ injection Hin as <- <-. split; [left; reflexivity|]. exists st, k, v. split; [exact O1|]. split; [exact O2|reflexivity].
            ++ destruct (H2 c f Hin) as [G1 G2]. split; [right; exact G1|].
               destruct G2 as (st2 & k2 & v2 & K1 & K2 & K3). exists st2, k2, v2. split; [|split; assumption].
               rewrite O4 in K1. eapply zlookup_zremove_some. exact K1.
@@ -985,19 +1599,19 @@ Proof.
            ++ cbn [orb]. destruct (existsb _ (map fst new)); [reflexivity|]. apply zlookup_zremove_other. lia.
 Qed.
 
-Lemma process_wakeups_wrote s b : agree b ->
-  exists new, wrote b (snd (process_wakeups s b)) new
+Lemma process_wakeups_wrote now s b : agree b ->
+  exists new, wrote b (snd (process_wakeups now s b)) new
     /\ NoDup (map fst new)
-    /\ (forall c f, In (c, f) new -> delivery_of b c f /\ zlookup c (b_blk (snd (process_wakeups s b))) = None)
-    /\ (forall c, zlookup c (b_blk b) <> None -> zlookup c (b_blk (snd (process_wakeups s b))) = None -> In c (map fst new))
-    /\ (forall c, zlookup c (b_blk b) = None -> zlookup c (b_blk (snd (process_wakeups s b))) = None).
+    /\ (forall c f, In (c, f) new -> delivery_of b c f /\ zlookup c (b_blk (snd (process_wakeups now s b))) = None)
+    /\ (forall c, zlookup c (b_blk b) <> None -> zlookup c (b_blk (snd (process_wakeups now s b))) = None -> In c (map fst new))
+    /\ (forall c, zlookup c (b_blk b) = None -> zlookup c (b_blk (snd (process_wakeups now s b))) = None).
 Proof.
   intros HA. unfold process_wakeups.
   assert (H0 : b_crashed (with_wake b (skipn 32 (b_wake b))) = true \/
                agreeW (with_wake b (skipn 32 (b_wake b))) (firstn 32 (b_wake b) ++ b_wake (with_wake b (skipn 32 (b_wake b))))).
   { right. cbn [with_wake b_wake]. unfold agreeW. rewrite firstn_skipn. apply agreeW_self in HA. unfold agreeW in HA.
     destruct b; exact HA. }
-  destruct (wake_fold_out _ s _ H0) as (new & H1 & H2 & H3 & H4). cbn [with_wake b_out b_blk] in *.
+  destruct (wake_fold_out now _ s _ H0) as (new & H1 & H2 & H3 & H4). cbn [with_wake b_out b_blk] in *.
   exists new. split; [exact H1|]. split; [exact H3|]. split; [|split].
   - intros c f Hin. destruct (H2 c f Hin) as [_ G2]. split; [exact G2|].
     rewrite H4. replace (existsb (Z.eqb c) (map fst new)) with true; [reflexivity|].
@@ -1013,7 +1627,7 @@ Proof. intros H Hc. destruct (reach_inv pw st H) as [H1|[H1 _]]; [congruence|exa
 Lemma reg_get_entries b rk w : In w (reg_get (b_reg b) rk) -> exists q, In (rk, q) (b_reg b) /\ In w q.
 Proof. apply reg_get_in. Qed.
 
-(** waiter in the registry <-> connection Blocked on that key (or its wake-up is under way) *)
+(** waiter in the registry -> its connection is Blocked on that key, with that deadline *)
 Theorem waiter_blocked pw st : reach pw st -> b_crashed (snd st) = false ->
   forall db k w, In w (reg_get (b_reg (snd st)) (db, k)) ->
   exists bst, zlookup (w_conn w) (b_blk (snd st)) = Some bst /\ bl_db bst = db /\ bmem k (bl_keys bst) = true
@@ -1024,6 +1638,8 @@ Proof.
   destruct (A1 _ _ _ H1 H2) as (bst & T1 & T2 & T3 & T4 & T5 & _). cbn [fst snd] in *.
   exists bst. repeat split; congruence.
 Qed.
+(** Blocked -> registered on every key of the call, or its wake-up is under way (and then it
+    is registered nowhere) *)
 Theorem blocked_waiter pw st : reach pw st -> b_crashed (snd st) = false ->
   forall c bst, zlookup c (b_blk (snd st)) = Some bst ->
   (forall k, bmem k (bl_keys bst) = true -> exists w, In w (reg_get (b_reg (snd st)) (bl_db bst, k)) /\ w_conn w = c)
@@ -1035,17 +1651,24 @@ Proof.
   - left. intros k Hk. apply cnt_nonzero. eapply A4; eauto.
   - right. assert (Hin : In u (wakes_for c (b_wake (snd st)))) by (rewrite Ew; left; reflexivity).
     unfold wakes_for in Hin. apply filter_In in Hin. destruct Hin as [Hin Hcu]. apply Z.eqb_eq in Hcu.
-    destruct (A2 u Hin) as (st2 & T1 & T2 & T3 & T4 & T5). rewrite Hcu, Hb in T1. injection T1 as <-.
-    exists u. repeat split; try assumption. rewrite <- Hcu. exact T5.
+    destruct (A2 u Hin) as (T5 & T6). rewrite Hcu in T6. destruct (T6 _ Hb) as (T2 & T3 & T4).
+    exists u. split; [exact Hin|]. split; [exact Hcu|]. split; [exact T2|]. split; [exact T3|]. rewrite <- Hcu. exact T5.
 Qed.
-(** once served or timed out (not Blocked): no registration, no wake-up *)
+(** once served, timed out or gone (not Blocked): no registration; a wake-up can still be
+    under way only for a connection that has gone away (it will put the element back) *)
 Theorem no_leftover pw st : reach pw st -> b_crashed (snd st) = false ->
   forall c, zlookup c (b_blk (snd st)) = None ->
-  (forall rk, cnt c (reg_get (b_reg (snd st)) rk) = O) /\ wakes_for c (b_wake (snd st)) = [].
+  (forall rk, cnt c (reg_get (b_reg (snd st)) rk) = O) /\
+  (wakes_for c (b_wake (snd st)) = [] \/ zlookup c (s_conns (fst st)) = None).
 Proof.
-  intros H Hc c Hn. destruct (not_blocked_clean _ c (reach_agree pw st H Hc) Hn) as [H1 H2]. split; [|exact H2].
-  intros rk. apply cnt_zero. intros w Hw. destruct (reg_get_in _ _ _ Hw) as [q [G1 G2]].
-  pose proof (H1 _ _ G1) as Hz. rewrite cnt_zero in Hz. apply Hz. exact G2.
+  intros H Hc c Hn. pose proof (not_blocked_clean _ c (reach_agree pw st H Hc) Hn) as H1. split.
+  - intros rk. apply cnt_zero. intros w Hw. destruct (reg_get_in _ _ _ Hw) as [q [G1 G2]].
+    pose proof (H1 _ _ G1) as Hz. rewrite cnt_zero in Hz. apply Hz. exact G2.
+  - destruct (reach_inv pw st H) as [Hi|(_ & _ & HO & _)]; [congruence|].
+    destruct (wakes_for c (b_wake (snd st))) as [|u l] eqn:Ew; [left; reflexivity|right].
+    assert (Hin : In u (wakes_for c (b_wake (snd st)))) by (rewrite Ew; left; reflexivity).
+    unfold wakes_for in Hin. apply filter_In in Hin. destruct Hin as [Hin Hcu]. apply Z.eqb_eq in Hcu.
+    rewrite <- Hcu. apply HO; [exact Hin|rewrite Hcu; exact Hn].
 Qed.
 (** at most one wake-up per connection is under way *)
 Theorem one_wakeup_each pw st : reach pw st -> b_crashed (snd st) = false -> NoDup (map u_conn (b_wake (snd st))).
@@ -1064,14 +1687,21 @@ Proof.
   intros H Hc. cbn [step]. rewrite Hc. cbn [snd]. apply process_timeouts_wrote. exact (reach_agree pw (s, b) H Hc).
 Qed.
 (** wake-ups: [key, element] only, only to connections Blocked on that key, one each *)
-Theorem wakeups_reply pw s b : reach pw (s, b) -> b_crashed b = false ->
-  let b' := snd (step (s, b) EWakeups) in
+Theorem wakeups_reply pw s b now : reach pw (s, b) -> b_crashed b = false ->
+  let b' := snd (step (s, b) (EWakeups now)) in
   exists new, wrote b b' new /\ NoDup (map fst new)
     /\ (forall c f, In (c, f) new -> delivery_of b c f /\ zlookup c (b_blk b') = None)
     /\ (forall c, zlookup c (b_blk b) <> None -> zlookup c (b_blk b') = None -> In c (map fst new))
     /\ (forall c, zlookup c (b_blk b) = None -> zlookup c (b_blk b') = None).
 Proof.
   intros H Hc. cbn [step]. rewrite Hc. apply process_wakeups_wrote. exact (reach_agree pw (s, b) H Hc).
+Qed.
+(** a connection that is there and not Blocked has no wake-up under way *)
+Lemma live_no_wake s b c cn :
+  (forall u, In u (b_wake b) -> zlookup (u_conn u) (b_blk b) = None -> zlookup (u_conn u) (s_conns s) = None) ->
+  zlookup c (s_conns s) = Some cn -> zlookup c (b_blk b) = None -> wakes_for c (b_wake b) = [].
+Proof.
+  intros HO Hc Hnb. apply wakes_for_nil. intros u Hu E. pose proof (HO u Hu) as G. rewrite E in G. specialize (G Hnb). congruence.
 Qed.
 (** a request: at most one reply, to the issuing connection; no reply exactly when the request
     was answered NoResponse, and only then can the connection have become Blocked; nobody else's
@@ -1082,25 +1712,35 @@ Theorem frame_reply pw s b now c f oms : reach pw (s, b) -> b_crashed b = false 
   exists rep, (match rep with FNoResponse => wrote b b' [] | _ => wrote b b' [(c, rep)] end)
               /\ blk_change c rep b b' /\ zlookup c (b_blk b) = None.
 Proof.
-  intros H Hc Hok. destruct (reach_inv pw _ H) as [Hi|(HA & H0)]; [cbn [snd] in Hi; congruence|].
+  intros H Hc Hok. destruct (reach_inv pw _ H) as [Hi|(HA & H0 & HO & _)]; [cbn [snd] in Hi; congruence|].
   cbn [fst snd] in *. cbn [step ok] in *. rewrite Hc.
   destruct (zlookup c (s_conns s)) as [cn|] eqn:Hcn; [|discriminate].
   apply andb_true_iff in Hok. destruct Hok as [Hnb Hq].
   apply negb_true_iff in Hnb. apply is_blocked_false in Hnb.
+  pose proof (live_no_wake s b c cn HO Hcn Hnb) as Hnw.
   unfold frame_step. destruct (bprocess_frame now s b c f None oms) as [[rep s'] b1] eqn:E. cbn [snd].
-  destruct (bprocess_frame_inv _ _ _ _ _ _ _ _ _ _ _ HA H0 Hcn Hnb E) as (G1 & G3 & G4 & G5 & G6).
+  destruct (bprocess_frame_inv _ _ _ _ _ _ _ _ _ _ _ HA H0 Hcn Hnb Hnw E) as (G1 & G3 & G4 & G5 & G6).
   exists rep. split; [|split; [|exact Hnb]].
   - unfold wrote. destruct rep; cbn [emit b_out rev app]; rewrite G5; reflexivity.
   - unfold blk_change in *. destruct rep; exact G6.
 Qed.
-(** the other events write nothing and block or unblock nobody *)
+(** the other events write nothing and wake nobody; connecting and going away change nobody's
+    Blocked state; when the server notices the clients that went away their connections are
+    Blocked no more (cleanup_connections), nobody else's state changes *)
 Theorem connect_disconnect_silent s b e : b_crashed b = false ->
   (match e with EConnect _ | EDisconnect _ => True | _ => False end) ->
   b_out (snd (step (s, b) e)) = b_out b /\ b_blk (snd (step (s, b) e)) = b_blk b /\ b_wake (snd (step (s, b) e)) = b_wake b.
 Proof.
-  intros Hc He. cbn [step]. rewrite Hc. destruct e; try contradiction; cbn [snd].
-  - repeat split.
-  - destruct (is_blocked b c); repeat split.
+  intros Hc He. cbn [step]. rewrite Hc. destruct e; try contradiction; cbn [snd]; (split; [reflexivity|split; reflexivity]).
+Qed.
+Theorem hangups_silent s b : b_crashed b = false ->
+  let b' := snd (step (s, b) EHangups) in
+  b_out b' = b_out b /\ b_wake b' = b_wake b /\
+  forall c, zlookup c (b_blk b') = if existsb (Z.eqb c) (filter (noticed b) (b_dead b)) then None else zlookup c (b_blk b).
+Proof.
+  intros Hc. cbn [step]. rewrite Hc. cbn [snd]. unfold reap_dead.
+  destruct (drop_fold (filter (noticed b) (b_dead b)) (with_dead b (filter (fun c => negb (noticed b c)) (b_dead b)))) as (_ & D2 & D3 & _ & _ & D6).
+  split; [exact D3|]. split; [exact D2|exact D6].
 Qed.
 
 (** ---- the deadline of a blocking call is its arrival time plus its timeout; no timeout, no deadline ---- *)
@@ -1124,7 +1764,7 @@ Proof.
   destruct (fast_path left (get_db s dbi) keys) as [[r0|] d'] eqn:Ef.
   - left. injection H as <- _ <-. split; [eapply fast_path_reply; exact Ef|reflexivity].
   - right. replace (c =? 0) with false in H by lia. rewrite Hcn in H. injection H as <- _ <-. split; [reflexivity|]. exists tmo, keys. split; [reflexivity|].
-    cbn [set_blocked with_blk b_blk]. apply zlookup_zset_same.
+    cbn [set_blocked with_blk with_seq b_blk]. apply zlookup_zset_same.
 Qed.
 Lemma timeout_of_forever arg oms : timeout_of arg oms = Some None ->
   exists t, arg = FBulk t /\ (match oms with Some z => z | None => simple_timeout t end) = 0.
@@ -1133,10 +1773,11 @@ Proof.
   destruct (_ <? 0); [discriminate|]. destruct (_ =? 0) eqn:E; [lia|discriminate].
 Qed.
 
-(** ================= FIFO: the queue of a key ================= *)
-(** a blocking call joins at the back of every queue it names *)
-Theorem fifo_join_back db c left dl keys r rk :
-  exists n, reg_get (register r db c keys left dl) rk = reg_get r rk ++ repeat (mkw c dl left) n
+(** ================= the queue of a key: the operations ================= *)
+(** a blocking call joins at the back of every queue it names (the order and the history
+    property are in BlockingFifo.v) *)
+Theorem fifo_join_back db c left dl at_ keys r rk :
+  exists n, reg_get (register r db c keys left dl at_) rk = reg_get r rk ++ repeat (mkw c dl left at_) n
             /\ (n <> O <-> (fst rk = db /\ bmem (snd rk) keys = true)).
 Proof. apply reg_get_register. Qed.
 (** a push serves the HEAD of the key's queue: its wake-up goes to the back of the wake queue,
@@ -1144,7 +1785,7 @@ Proof. apply reg_get_register. Qed.
 Theorem fifo_serve_head b db k w q :
   reg_get (b_reg b) (db, k) = w :: q ->
   let b' := notify_key_ready b db k in
-  b_wake b' = b_wake b ++ [{| u_conn := w_conn w; u_db := db; u_key := k; u_left := w_left w |}]
+  b_wake b' = b_wake b ++ [{| u_conn := w_conn w; u_db := db; u_key := k; u_left := w_left w; u_at := w_at w |}]
   /\ reg_get (b_reg b') (db, k) = filter (not_conn (w_conn w)) q
   /\ forall k2, rk_eqb (db, k2) (db, k) = false ->
        reg_get (b_reg b') (db, k2) = filter (not_conn (w_conn w)) (reg_get (b_reg b) (db, k2)).
@@ -1160,16 +1801,11 @@ Proof. apply reg_get_expire. Qed.
 Theorem fifo_unregister_keeps_order r db c rk :
   reg_get (unregister r db c) rk = if fst rk =? db then filter (not_conn c) (reg_get r rk) else reg_get r rk.
 Proof. apply reg_get_unregister. Qed.
-(** the wake queue is served from the front, 32 at a time *)
-Theorem fifo_wake_queue s b : b_crashed b = false ->
-  b_wake (snd (process_wakeups s b)) = skipn 32 (b_wake b) \/ b_crashed (snd (process_wakeups s b)) = true.
-Proof.
-  intros _. left. unfold process_wakeups.
-  assert (G : forall l sb, b_wake (snd (fold_left wake_step l sb)) = b_wake (snd sb)).
-  { induction l as [|u l IH]; intros sb; cbn [fold_left]; [reflexivity|]. rewrite IH.
-    unfold wake_step. destruct (b_crashed (snd sb)); [reflexivity|]. apply wake_client_wake. }
-  rewrite G. reflexivity.
-Qed.
+(** the wake queue is served from the front, 32 at a time; what the wake-ups themselves add
+    (the re-notification after an element was put back) joins its back *)
+Theorem fifo_wake_queue now s b :
+  exists ex, b_wake (snd (process_wakeups now s b)) = skipn 32 (b_wake b) ++ ex.
+Proof. exact (proj1 (proj2 (process_wakeups_misc now s b))). Qed.
 
 (** ================= the runner's functions are sequences of steps ================= *)
 Lemma h_bpop_crashed left now s b c dbi parts oms rep s' b' :
@@ -1187,22 +1823,26 @@ Lemma bnormal_crashed now s b c dbi parts o oms rep s' b' :
   bnormal now s b c dbi parts o oms = (rep, s', b') -> b_crashed b' = b_crashed b.
 Proof.
   intros H. unfold bnormal in H.
-  assert (NC : forall nmx, (let (r, s'0) := normal_command now s c dbi parts o in (r, s'0, notify_after_push b dbi nmx parts r)) = (rep, s', b') -> b_crashed b' = b_crashed b).
-  { intros nmx E. destruct (normal_command now s c dbi parts o) as [r s1]. injection E as _ _ <-. apply notify_after_push_fields. }
-  destruct parts as [|p rest].
-  { destruct (normal_command now s c dbi [] o). injection H as _ _ <-. reflexivity. }
+  destruct parts as [|p rest]; [destruct (normal_command now s c dbi [] o); injection H as _ _ <-; reflexivity|].
   destruct p; try (destruct (normal_command now s c dbi _ o); injection H as _ _ <-; reflexivity).
   destruct (beq (upper b0) (bs "BLPOP")); [eapply h_bpop_crashed; exact H|].
   destruct (beq (upper b0) (bs "BRPOP")); [eapply h_bpop_crashed; exact H|].
-  eapply NC. exact H.
+  destruct (normal_command now s c dbi (FBulk b0 :: rest) o) as [r s1]. injection H as _ _ <-.
+  destruct (notify_after_push_fields b dbi (upper b0) (FBulk b0 :: rest) r) as (_ & _ & F & _).
+  cbv zeta. destruct (beq (upper b0) _); [|exact F].
+  destruct (notify_after_script_fields s1 (notify_after_push b dbi (upper b0) (FBulk b0 :: rest) r) dbi (FBulk b0 :: rest)) as (_ & _ & K & _).
+  congruence.
 Qed.
-Lemma bexec_queue_crashed now dbi : forall q s b acc reps s' b',
-  bexec_queue now s b dbi q acc = (reps, s', b') -> b_crashed b' = b_crashed b.
+Lemma bexec_queue_crashed now c : forall q s b dbi acc reps s' b',
+  bexec_queue now s b c dbi q acc = (reps, s', b') -> b_crashed b' = b_crashed b.
 Proof.
-  induction q as [|parts q IH]; intros s b acc reps s' b' H; cbn [bexec_queue] in H.
+  induction q as [|parts q IH]; intros s b dbi acc reps s' b' H; cbn [bexec_queue] in H.
   - injection H as _ _ <-. reflexivity.
-  - destruct (bnormal now s b 0 dbi parts None None) as [[rep s1] b1] eqn:En.
-    rewrite (IH _ _ _ _ _ _ H). eapply bnormal_crashed; exact En.
+  - destruct (beq (queued_name parts) (bs "SELECT")).
+    + destruct (bnormal now s b c dbi parts None None) as [[rep s1] b1] eqn:En.
+      rewrite (IH _ _ _ _ _ _ _ H). eapply bnormal_crashed; exact En.
+    + destruct (bnormal now s b 0 dbi parts None None) as [[rep s1] b1] eqn:En.
+      rewrite (IH _ _ _ _ _ _ _ H). eapply bnormal_crashed; exact En.
 Qed.
 Lemma bprocess_frame_crashed now s b c f o oms rep s' b' :
   bprocess_frame now s b c f o oms = (rep, s', b') -> b_crashed b' = b_crashed b.
@@ -1215,14 +1855,14 @@ Proof.
   destruct first as [| | |nm| | | | | | | | |]; try (apply Pass; exact H).
   destruct (zlookup c (s_conns s)) as [cn|]; [|apply Pass; exact H].
   destruct (_ && negb (c_auth cn)); [apply Pass; exact H|].
+  destruct (c_intx cn && _); [apply Pass; exact H|].
   destruct (beq (upper (trim nm)) (bs "MULTI")); [apply Pass; exact H|].
   destruct (beq (upper (trim nm)) (bs "EXEC")).
   { unfold bh_exec in H. cbv zeta in H. destruct (negb (c_intx cn)); [injection H as _ _ <-; reflexivity|].
-    destruct (existsb _ (c_watched cn)); [injection H as _ _ <-; reflexivity|].
-    revert H. destruct (bexec_queue _ _ _ _ _ _) as [[reps s2] b2] eqn:E. intros H. injection H as _ _ <-.
+    destruct (watch_violated now s cn); [injection H as _ _ <-; reflexivity|].
+    revert H. destruct (bexec_queue _ _ _ _ _ _ _) as [[reps s2] b2] eqn:E. intros H. injection H as _ _ <-.
     eapply bexec_queue_crashed; exact E. }
   destruct (_ || _ || _ || _); [apply Pass; exact H|].
-  destruct (c_intx cn && _); [apply Pass; exact H|].
   eapply bnormal_crashed; exact H.
 Qed.
 Lemma frame_step_crashed now s b c f oms : b_crashed (snd (frame_step now s b c f oms)) = b_crashed b.
@@ -1230,39 +1870,67 @@ Proof.
   unfold frame_step. destruct (bprocess_frame now s b c f None oms) as [[rep s'] b'] eqn:E. cbn [snd].
   rewrite <- (bprocess_frame_crashed _ _ _ _ _ _ _ _ _ _ E). destruct rep; reflexivity.
 Qed.
-(** process_connection: the frames of one read are EFrame steps of that connection, in order *)
+(** process_connection (939522b): the frames of one read are EFrame steps of that connection,
+    in order, UP TO the first one that leaves the connection Blocked; what follows that one is
+    not processed: it is kept, in order, in front of what the connection had already deferred *)
+Definition evs_of (now c : Z) (fs : list (frame * option Z)) : list event :=
+  map (fun fo => EFrame now c (fst fo) (snd fo)) fs.
 Theorem serve_batch_is_run : forall fs now s b c,
   b_crashed b = false -> forallb (fun fo => negb (is_quit (fst fo))) fs = true ->
-  serve_batch now s b c fs false = run (s, b) (map (fun fo => EFrame now c (fst fo) (snd fo)) fs).
+  exists done rest, fs = done ++ rest /\
+    serve_batch now s b c fs false =
+      (fst (run (s, b) (evs_of now c done)), defer (snd (run (s, b) (evs_of now c done))) c rest) /\
+    (rest = [] \/ is_blocked (snd (run (s, b) (evs_of now c done))) c = true) /\
+    (forall d1 fo d2, done = d1 ++ fo :: d2 -> d2 <> [] ->
+       is_blocked (snd (run (s, b) (evs_of now c (d1 ++ [fo])))) c = false).
 Proof.
-  induction fs as [|[f oms] fs IH]; intros now s b c Hc Hq; cbn [serve_batch map run fold_left]; [reflexivity|].
-  cbn [forallb fst] in Hq. apply andb_true_iff in Hq. destruct Hq as [Hq1 Hq2]. apply negb_true_iff in Hq1.
-  cbn [step fst snd]. rewrite Hc.
-  pose proof (frame_step_crashed now s b c f oms) as Hcr. unfold frame_step in *.
-  destruct (bprocess_frame now s b c f None oms) as [[rep s'] b'] eqn:E. cbn [snd] in Hcr.
-  rewrite Hq1. cbn [orb]. apply IH; [congruence|exact Hq2].
+  induction fs as [|[f oms] fs IH]; intros now s b c Hc Hq.
+  - exists [], []. cbn [serve_batch evs_of map run fold_left fst snd defer finish_batch app].
+    split; [reflexivity|]. split; [reflexivity|]. split; [left; reflexivity|].
+    intros d1 fo d2 E. destruct d1; discriminate.
+  - cbn [forallb fst] in Hq. apply andb_true_iff in Hq. destruct Hq as [Hq1 Hq2]. apply negb_true_iff in Hq1.
+    cbn [serve_batch].
+    pose proof (frame_step_crashed now s b c f oms) as Hcr.
+    assert (Est : step (s, b) (EFrame now c f oms) = frame_step now s b c f oms) by (cbn [step]; rewrite Hc; reflexivity).
+    unfold frame_step in Hcr, Est.
+    destruct (bprocess_frame now s b c f None oms) as [[rep s'] b'] eqn:E. cbn [snd] in Hcr.
+    rewrite Hq1. cbn [orb].
+    set (b'' := match rep with FNoResponse => b' | _ => emit b' c rep end) in *.
+    destruct (is_blocked b'' c) eqn:Eb.
+    + exists [(f, oms)], fs. split; [reflexivity|].
+      unfold evs_of. cbn [map run fold_left fst snd]. rewrite Est. cbn [fst snd finish_batch].
+      split; [reflexivity|]. split; [right; exact Eb|].
+      intros d1 fo d2 E1 Hne. destruct d1 as [|x d1]; cbn [app] in E1; [injection E1 as _ <-; congruence|].
+      injection E1 as _ E1. destruct d1; discriminate.
+    + destruct (IH now s' b'' c) as (done & rest & F1 & F2 & F3 & F4); [congruence|exact Hq2|].
+      exists ((f, oms) :: done), rest. split; [cbn [app]; rewrite F1; reflexivity|].
+      unfold evs_of in *. cbn [map run fold_left fst snd]. rewrite Est. fold (run (s', b'')).
+      split; [exact F2|]. split; [exact F3|].
+      intros d1 fo d2 E1 Hne. destruct d1 as [|x d1]; cbn [app] in E1.
+      * injection E1 as <- _. unfold run. cbn [app map fold_left fst snd]. rewrite Est. exact Eb.
+      * injection E1 as <- E1. unfold run. cbn [app map fold_left fst snd]. rewrite Est. exact (F4 d1 fo d2 E1 Hne).
 Qed.
+(** while a connection is Blocked nothing it sent is read *)
+Theorem blocked_not_read now s b c fs : is_blocked b c = true -> conn_step now (s, b) (c, fs) = (s, b).
+Proof. intros H. unfold conn_step. cbn [fst snd]. rewrite H. reflexivity. Qed.
 (** one iteration of Server::run is: the wake-up step, the reads of the connections that are
     not blocked, the timeout step *)
 Theorem iteration_phases now s b : b_crashed b = false ->
   iteration now (s, b) =
-    (let sb1 := step (s, b) EWakeups in
+    (let sb1 := step (s, b) (EWakeups now) in
      if b_crashed (snd sb1) then sb1 else
      let sb2 := process_conns now (fst sb1) (snd sb1) in
      (fst sb2, process_timeouts now (snd sb2))).
 Proof.
   intros Hc. unfold iteration. cbn [fst snd step]. rewrite Hc.
-  destruct (process_wakeups s b) as [s1 b1]. cbn [fst snd]. destruct (b_crashed b1); [reflexivity|].
+  destruct (process_wakeups now s b) as [s1 b1]. cbn [fst snd]. destruct (b_crashed b1); [reflexivity|].
   destruct (process_conns now s1 b1) as [s2 b2]. reflexivity.
 Qed.
 
 (** ================= the event loop never ends (since repair e1d4020) ================= *)
-Lemma wake_client_crashed s b u : b_crashed (snd (wake_client s b u)) = b_crashed b.
-Proof.
-  unfold wake_client. destruct (on_key (get_db s (u_db u)) (u_key u) (e_pop (u_left u))) as [r d'].
-  destruct r; cbn [snd]; destruct (zlookup (u_conn u) (b_blk b)); reflexivity.
-Qed.
-Lemma wake_fold_crashed : forall l sb, b_crashed (snd (fold_left wake_step l sb)) = b_crashed (snd sb).
+Lemma wake_client_crashed now s b u : b_crashed (snd (wake_client now s b u)) = b_crashed b.
+Proof. apply wake_client_crashed0. Qed.
+Lemma wake_fold_crashed now : forall l sb, b_crashed (snd (fold_left (wake_step now) l sb)) = b_crashed (snd sb).
 Proof.
   induction l as [|u l IH]; intros sb; cbn [fold_left]; [reflexivity|]. rewrite IH.
   unfold wake_step. destruct (b_crashed (snd sb)) eqn:E; [exact E|]. rewrite wake_client_crashed. exact E.
@@ -1270,12 +1938,14 @@ Qed.
 Lemma step_crashed st e : b_crashed (snd (step st e)) = b_crashed (snd st).
 Proof.
   destruct st as [s b]. cbn [step snd]. destruct (b_crashed b) eqn:Ec; [exact Ec|].
-  destruct e as [now c f oms| |now|c|c]; cbn [snd].
+  destruct e as [now c f oms|now|now|c|c|]; cbn [snd].
   - rewrite frame_step_crashed. exact Ec.
   - unfold process_wakeups. rewrite wake_fold_crashed. exact Ec.
   - unfold process_timeouts. destruct (expire_reg now (b_reg b)) as [ex r']. destruct (timeout_fold ex (with_reg b r')) as (_ & _ & T & _). rewrite T. exact Ec.
   - exact Ec.
-  - destruct (is_blocked b c); exact Ec.
+  - exact Ec.
+  - unfold reap_dead. destruct (drop_fold (filter (noticed b) (b_dead b)) (with_dead b (filter (fun c => negb (noticed b c)) (b_dead b)))) as (_ & _ & _ & D & _).
+    rewrite D. exact Ec.
 Qed.
 Theorem never_crashes pw st : reach pw st -> b_crashed (snd st) = false.
 Proof. induction 1; [reflexivity|]. rewrite step_crashed. exact IHreach. Qed.
